@@ -253,14 +253,6 @@ Proof.
   - intros o H. apply andb_true_iff in H. destruct H as [H _]. now apply negb_true_iff in H.
 Qed.
 
-Lemma step_fst : forall fl s o, fst (step fl s o) = fst (step_core fl s o).
-Proof. intros. unfold step. now destruct (step_core fl s o). Qed.
-Lemma step_snd : forall fl s o, is_event o = false -> snd (step fl s o) = order fl (snd (step_core fl s o)).
-Proof. intros fl s o H. unfold step. rewrite H. now destruct (step_core fl s o). Qed.
-Lemma step_snd_event : forall fl s ev, snd (step fl s (OpEvent ev)) = snd (step_core fl s (OpEvent ev)).
-Proof. intros. unfold step. simpl. now destruct (step_core fl s (OpEvent ev)). Qed.
-
-(* ------------------------------------------------------------------ more list facts *)
 Lemma nodup_snoc : forall (l : list N) x, NoDup l -> ~ In x l -> NoDup (l ++ [x]).
 Proof.
   induction l as [|y r IH]; intros x Hn Hx; simpl.
@@ -342,7 +334,8 @@ Record Inv (s : sess) : Prop := {
   inv_joined : s_joined s = s_transport s;
   (* an active subscription object is listed under its id *)
   inv_active_att : forall l o, lookup l (s_objs s) = Some o -> so_active o = true ->
-                   In l (labels (attached s (so_id o))) }.
+                   In l (labels (attached s (so_id o)));
+  inv_ureq_le : forall r, In r (keys (s_unsubreqs s)) -> r <= s_next s }.
 
 Lemma Inv_init : Inv init.
 Proof.
@@ -353,9 +346,10 @@ Qed.
 Lemma Inv_hold : forall s s' hs, Inv s ->
   s_subs s' = s_subs s -> s_objs s' = hold hs (s_objs s) ->
   (forall r, In r (keys (s_subreqs s')) -> In r (keys (s_subreqs s))) -> NoDup (keys (s_subreqs s')) ->
-  s_ever s' = s_ever s -> s_joined s' = s_transport s' -> s_next s <= s_next s' -> Inv s'.
+  s_ever s' = s_ever s -> s_joined s' = s_transport s' -> s_next s <= s_next s' ->
+  (forall r, In r (keys (s_unsubreqs s')) -> r <= s_next s') -> Inv s'.
 Proof.
-  intros s s' hs I Hs Ho Hr Hn He Hj Hx. constructor.
+  intros s s' hs I Hs Ho Hr Hn He Hj Hx Hu. constructor.
   - intros sid lst e H1 H2. rewrite Hs in H1. destruct (inv_att s I _ _ _ H1 H2) as [o [A [B C]]].
     rewrite Ho. destruct (lookup_hold_fwd hs _ _ _ A) as [o' [A' [B' C']]]. exists o'. repeat split; congruence.
   - intros sid lst H. rewrite Hs in H. eapply inv_lst_nodup; eauto.
@@ -368,22 +362,25 @@ Proof.
   - exact Hj.
   - intros l o H1 H2. rewrite Ho in H1. destruct (lookup_hold_inv _ _ _ _ H1) as [o0 [A [B C]]].
     unfold attached. rewrite Hs, C. apply (inv_active_att s I l o0 A). congruence.
+  - exact Hu.
 Qed.
 
 Lemma Inv_same : forall s s', Inv s ->
   s_subs s' = s_subs s -> s_objs s' = s_objs s -> s_subreqs s' = s_subreqs s ->
-  s_ever s' = s_ever s -> s_joined s' = s_transport s' -> s_next s <= s_next s' -> Inv s'.
+  s_ever s' = s_ever s -> s_joined s' = s_transport s' -> s_next s <= s_next s' ->
+  (forall r, In r (keys (s_unsubreqs s')) -> r <= s_next s') -> Inv s'.
 Proof.
-  intros s s' I Hs Ho Hr He Hj Hx. apply (Inv_hold s s' [] I); auto.
+  intros s s' I Hs Ho Hr He Hj Hx Hu. apply (Inv_hold s s' [] I); auto.
   - now rewrite hold_nil.
   - now rewrite Hr.
   - rewrite Hr. apply (inv_req_nodup s I).
 Qed.
 
 (* ---- subscribe *)
-Lemma do_subscribe_inv : forall s h t g, Inv s -> Inv (fst (do_subscribe s h t g)).
+(* ---- subscribe: recording the request; handing futures / objects over *)
+Lemma record_sub_inv : forall s h t g, Inv s -> Inv (record_sub s h t g).
 Proof.
-  intros s h t g I. unfold do_subscribe. simpl. constructor; simpl.
+  intros s h t g I. unfold record_sub. constructor; simpl.
   - apply (inv_att s I).
   - apply (inv_lst_nodup s I).
   - apply (inv_subs_nodup s I).
@@ -399,46 +396,24 @@ Proof.
   - apply (inv_ever s I).
   - apply (inv_joined s I).
   - apply (inv_active_att s I).
+  - intros r H. apply (inv_ureq_le s I) in H. lia.
 Qed.
 
-Lemma subscribe_all_cons : forall s g h t r,
-  subscribe_all s g ((h, t) :: r) =
-  let '(s1, o1) := do_subscribe s h t (Some g) in let '(s2, o2) := subscribe_all s1 g r in (s2, o1 ++ o2).
-Proof. reflexivity. Qed.
-
-Lemma subscribe_all_inv : forall ms s g, Inv s -> Inv (fst (subscribe_all s g ms)).
+Lemma set_gathers_inv : forall s gs hs, Inv s -> Inv (set_gathers s gs (hold hs (s_objs s))).
 Proof.
-  induction ms as [|[h t] r IH]; intros s g I; [exact I|]. rewrite subscribe_all_cons.
-  pose proof (do_subscribe_inv s h t (Some g) I) as I1.
-  destruct (do_subscribe s h t (Some g)) as [s1 o1]. simpl in I1.
-  specialize (IH s1 g I1). destruct (subscribe_all s1 g r) as [s2 o2]. exact IH.
+  intros s gs hs I. apply (Inv_hold s _ hs I); simpl; auto; [apply (inv_req_nodup s I) | apply (inv_joined s I) | lia | apply (inv_ureq_le s I)].
 Qed.
 
-Lemma api_subscribe_inv : forall s h t, Inv s -> Inv (fst (api_subscribe s h t)).
+Lemma set_objs_inv : forall s ls, Inv s -> Inv (set_objs s (hold ls (s_objs s))).
 Proof.
-  intros s h t I. unfold api_subscribe. destruct (negb (s_transport s)); [exact I|]. now apply do_subscribe_inv.
+  intros s ls I. apply (Inv_hold s _ ls I); simpl; auto; [apply (inv_req_nodup s I) | apply (inv_joined s I) | lia | apply (inv_ureq_le s I)].
 Qed.
 
-Lemma subscribe_all_fields : forall ms s g,
-  s_transport (fst (subscribe_all s g ms)) = s_transport s /\ s_joined (fst (subscribe_all s g ms)) = s_joined s.
-Proof.
-  induction ms as [|[h t] r IH]; intros s g; [simpl; tauto|]. rewrite subscribe_all_cons.
-  destruct (do_subscribe s h t (Some g)) as [s1 o1] eqn:E1.
-  specialize (IH s1 g). destruct (subscribe_all s1 g r) as [s2 o2]. simpl in *.
-  unfold do_subscribe in E1. inversion E1; subst s1. simpl in IH. exact IH.
-Qed.
+Lemma set_objs_id : forall s, set_objs s (s_objs s) = s.
+Proof. intros []; reflexivity. Qed.
+Lemma set_gathers_id : forall s, set_gathers s (s_gathers s) (s_objs s) = s.
+Proof. intros []; reflexivity. Qed.
 
-Lemma api_subscribe_obj_inv : forall s ms, Inv s -> Inv (fst (api_subscribe_obj s ms)).
-Proof.
-  intros s ms I. unfold api_subscribe_obj. destruct (negb (s_transport s)); [exact I|].
-  destruct ms as [|m r]; [exact I|].
-  pose proof (subscribe_all_inv (m :: r) s (s_next s + 1) I) as I1.
-  pose proof (subscribe_all_fields (m :: r) s (s_next s + 1)) as [F1 F2].
-  destruct (subscribe_all s (s_next s + 1) (m :: r)) as [s1 o1]. simpl in *.
-  apply (Inv_same s1); simpl; auto; [apply (inv_joined s1 I1) | lia].
-Qed.
-
-(* ---- Subscription.unsubscribe() *)
 Definition unsub_core (s : sess) (l : N) (o : subobj) (lst : list subent) : sess :=
   {| s_transport := s_transport s; s_joined := s_joined s; s_next := s_next s; s_subreqs := s_subreqs s;
      s_unsubreqs := s_unsubreqs s;
@@ -482,6 +457,7 @@ Proof.
       destruct (N.eq_dec (so_id o0) (so_id o)) as [E|E].
       * rewrite E in *. rewrite lookup_assoc_set_same. rewrite Hl in X. now apply remove_label_other.
       * rewrite lookup_assoc_set_other by exact E. exact X.
+  - apply (inv_ureq_le s I).
 Qed.
 
 Lemma api_unsubscribe_cases : forall s l,
@@ -515,15 +491,17 @@ Proof.
   intros s l I. destruct (api_unsubscribe_cases s l) as [E|[[e E]|[o [lst [Ho [Hh [Ha [Hl [Hm [Ht [[Er E]|[Er E]]]]]]]]]]]];
     rewrite E; simpl; try exact I.
   - pose proof (unsub_core_inv s l o lst I Ho Hl) as I1.
-    apply (Inv_same (unsub_core s l o lst)); simpl; auto; [apply (inv_joined s I) | lia].
+    apply (Inv_same (unsub_core s l o lst)); simpl; auto; [apply (inv_joined s I) | lia|].
+    intros r H. rewrite keys_app, in_app_iff in H. simpl in H. destruct H as [H|[H|[]]]; [apply (inv_ureq_le s I) in H|]; lia.
   - now apply unsub_core_inv.
 Qed.
 
 (* ---- SUBSCRIBED *)
-Lemma on_subscribed_inv : forall s req sid, Inv s -> Inv (fst (on_subscribed s req sid)).
+Lemma on_subscribed_inv : forall now s req sid, Inv s -> Inv (fst (fst (on_subscribed now s req sid))).
 Proof.
-  intros s req sid I. unfold on_subscribed. destruct (lookup req (s_subreqs s)) as [rq|] eqn:Hr; [|exact I].
-  destruct (complete_sub (s_gathers s) req rq (RSub sid)) as [[gs o] hs]. simpl.
+  intros now s req sid I. unfold on_subscribed. destruct (lookup req (s_subreqs s)) as [rq|] eqn:Hr; [|exact I].
+  destruct (complete_sub (s_gathers s) req rq (RSub sid)) as [[gs o] hs0]. simpl.
+  set (hs := if now then hs0 else []).
   assert (Hk : In req (keys (s_subreqs s))) by (eapply lookup_Some_keys; eauto).
   assert (Hnone : lookup req (s_objs s) = None) by now apply (inv_req_fresh s I).
   set (onew := {| so_id := sid; so_active := true; so_held := false |}).
@@ -571,6 +549,7 @@ Proof.
       apply N.eqb_eq in E0. rewrite E0 in X. rewrite labels_app, in_app_iff. now left.
     + simpl in A. destruct (req =? l) eqn:E; [|discriminate]. apply N.eqb_eq in E. subst l.
       inversion A; subst o1. simpl. rewrite N.eqb_refl, labels_app, in_app_iff. right. simpl. now left.
+  - apply (inv_ureq_le s I).
 Qed.
 
 (* ---- UNSUBSCRIBED *)
@@ -608,29 +587,32 @@ Proof.
     + inversion H1; subst o1. pose proof (inv_active_att s I l o E1 H2) as X.
       assert (Hne : so_id o <> sid). { intro E. rewrite E in X. apply memN_In in X. congruence. }
       unfold attached in *. simpl. now rewrite lookup_remove_key_other.
+  - intros r H. apply keys_remove_key_incl in H. now apply (inv_ureq_le s I).
 Qed.
 
 (* ---- ERROR, transport loss *)
-Lemma on_error_inv : forall s rt req uri, Inv s -> Inv (fst (on_error s rt req uri)).
+Lemma on_error_inv : forall now s rt req uri, Inv s -> Inv (fst (fst (on_error now s rt req uri))).
 Proof.
-  intros s rt req uri I. unfold on_error. destruct (rt =? 32).
+  intros now s rt req uri I. unfold on_error. destruct (rt =? 32).
   - destruct (lookup req (s_subreqs s)) as [rq|]; [|exact I].
     destruct (complete_sub (s_gathers s) req rq (RErr (EAppError uri))) as [[gs o] hs]. simpl.
-    apply (Inv_hold s _ hs I); simpl; auto.
+    apply (Inv_hold s _ (if now then hs else []) I); simpl; auto.
     + intros r H. eapply keys_remove_key_incl; eauto.
     + apply keys_remove_key_nodup, (inv_req_nodup s I).
     + apply (inv_joined s I).
     + lia.
+    + apply (inv_ureq_le s I).
   - destruct (rt =? 34); [|exact I]. destruct (lookup req (s_unsubreqs s)) as [rq|]; [|exact I]. simpl.
-    apply (Inv_same s); simpl; auto; [apply (inv_joined s I) | lia].
+    apply (Inv_same s); simpl; auto; [apply (inv_joined s I) | lia|].
+    intros r H. apply keys_remove_key_incl in H. now apply (inv_ureq_le s I).
 Qed.
 
 Lemma on_lose_inv : forall s, Inv s -> Inv (fst (on_lose s)).
 Proof.
   intros s I. unfold on_lose. destruct (s_joined s).
   - destruct (reject_subs (s_gathers s) (s_subreqs s)) as [[gs o1] hs]. simpl.
-    apply (Inv_hold s _ hs I); simpl; auto; [tauto | constructor | lia].
-  - simpl. apply (Inv_same s); simpl; auto. lia.
+    apply (Inv_hold s _ hs I); simpl; auto; [tauto | constructor | lia | tauto].
+  - simpl. apply (Inv_same s); simpl; auto; [lia | apply (inv_ureq_le s I)].
 Qed.
 
 (* ------------------------------------------------------------------ dispatch: whatever api_unsubscribe preserves *)
@@ -662,18 +644,40 @@ Proof.
   rewrite invocations_app, B. destruct x; reflexivity.
 Qed.
 
-Definition ri_state (x : sess * list out * list out * list out) : sess := fst (fst (fst x)).
+Definition ri_state (x : sess * list out * list out * list out * list N) : sess := fst (fst (fst (fst x))).
+Definition ri_h2 (x : sess * list out * list out * list out * list N) : list N := snd x.
 Fixpoint later_of (its : list item) : list subent :=
-  match its with [] => [] | INow _ :: r => later_of r | ILater e :: r => e :: later_of r end.
+  match its with
+  | [] => []
+  | ILater e _ :: r => e :: later_of r
+  | _ :: r => later_of r
+  end.
+(* the calls the Tasks will make *)
+Fixpoint later_invs (its : list item) : list invocation :=
+  match its with
+  | [] => []
+  | ILater e ev :: r => expected_invocation ev e :: later_invs r
+  | _ :: r => later_invs r
+  end.
 
 Lemma now_outs_app : forall a b, now_outs (a ++ b) = now_outs a ++ now_outs b.
-Proof. induction a as [|[o|e] r IH]; intros; simpl; rewrite ?IH; reflexivity. Qed.
+Proof. induction a as [|[o|o|e ev|b0 ls] r IH]; intros; simpl; rewrite ?IH; reflexivity. Qed.
 Lemma now_outs_map : forall os, now_outs (map INow os) = os.
 Proof. induction os; simpl; congruence. Qed.
+Lemma now_outs_soon : forall os, now_outs (map ISoon os) = os.
+Proof. induction os; simpl; congruence. Qed.
 Lemma later_of_app : forall a b, later_of (a ++ b) = later_of a ++ later_of b.
-Proof. induction a as [|[o|e] r IH]; intros; simpl; rewrite ?IH; reflexivity. Qed.
+Proof. induction a as [|[o|o|e ev|b0 ls] r IH]; intros; simpl; rewrite ?IH; reflexivity. Qed.
 Lemma later_of_map : forall os, later_of (map INow os) = [].
 Proof. induction os; simpl; auto. Qed.
+Lemma later_invs_app : forall a b, later_invs (a ++ b) = later_invs a ++ later_invs b.
+Proof. induction a as [|[o|o|e ev|b0 ls] r IH]; intros; simpl; rewrite ?IH; reflexivity. Qed.
+Lemma later_invs_map : forall os, later_invs (map INow os) = [].
+Proof. induction os; simpl; auto. Qed.
+Lemma later_invs_soon : forall os, later_invs (map ISoon os) = [].
+Proof. induction os; simpl; auto. Qed.
+Lemma later_invs_labels : forall its, map (fun x => fst (fst x)) (later_invs its) = labels (later_of its).
+Proof. induction its as [|[o|o|e ev|b0 ls] r IH]; simpl; rewrite ?IH; reflexivity. Qed.
 
 Section Dispatch.
 Variable P : sess -> Prop.
@@ -710,21 +714,10 @@ Proof.
     specialize (IH ev s1 H1). destruct (deliver fl r ev s1) as [s2 i2]. exact IH.
 Qed.
 
-Lemma run_items_preserves : forall ev its s, P s -> P (ri_state (run_items ev s its)).
-Proof.
-  intros ev. induction its as [|[o|e] r IH]; intros s Hs; simpl; [exact Hs| |].
-  - specialize (IH s Hs). destruct (run_items ev s r) as [[[s2 g0] g1] g2]. destruct (is_immediate o); exact IH.
-  - pose proof (invoke_preserves s e (e_args ev) (build_kwargs e ev) Hs) as H1.
-    destruct (invoke s e (e_args ev) (build_kwargs e ev)) as [s1 o1]. simpl in H1.
-    specialize (IH s1 H1). destruct (run_items ev s1 r) as [[[s2 g0] g1] g2]. exact IH.
-Qed.
-
 Lemma on_event_preserves : forall fl s ev, P s -> P (fst (on_event fl s ev)).
 Proof.
   intros fl s ev Hs. unfold on_event. destruct (lookup (e_sub ev) (s_subs s)) as [lst|]; [|exact Hs].
-  pose proof (deliver_preserves fl lst ev s Hs) as H1. destruct (deliver fl lst ev s) as [s1 its]. simpl in H1.
-  destruct fl; [exact H1|].
-  pose proof (run_items_preserves ev its s1 H1) as H2. destruct (run_items ev s1 its) as [[[s2 g0] g1] g2]. exact H2.
+  now apply deliver_preserves.
 Qed.
 
 (* every call made by a dispatch - inside the loop or as a Task - is of a subscription that is active, when its turn
@@ -746,58 +739,247 @@ Proof.
     destruct Hin as [[Hin|Hin]|Hin]; [|apply IH; now left | apply IH; now right].
     unfold invoked_labels in Hin. rewrite Hi in Hin. simpl in Hin. destruct Hin as [<-|[]]. eauto.
 Qed.
+
+Lemma on_event_invoked : forall fl s ev l, P s ->
+  In l (invoked_labels (now_outs (snd (on_event fl s ev)))) \/ In l (labels (later_of (snd (on_event fl s ev)))) ->
+  exists s', P s' /\ is_active s' l = true.
+Proof.
+  intros fl s ev l Hs Hin. unfold on_event in Hin. destruct (lookup (e_sub ev) (s_subs s)) as [lst|].
+  - eapply deliver_invoked; eauto.
+  - simpl in Hin. destruct Hin as [[]|[]].
+Qed.
 End Dispatch.
 
-(* what the loop turns after the dispatch contribute *)
-Lemma invocations_filter_nonimm : forall os, invocations (filter (fun o => negb (is_immediate o)) os) = [].
-Proof. intros. apply invocations_filter_not_imm. intros o H. now apply negb_true_iff in H. Qed.
+(* ------------------------------------------------------------------ whole operations: what every primitive preserves *)
+Section Stable.
+Variable P : sess -> Prop.
+Hypothesis HP_unsub : forall s l, P s -> P (fst (api_unsubscribe s l)).
+Hypothesis HP_subscribed : forall now s r sid, P s -> P (fst (fst (on_subscribed now s r sid))).
+Hypothesis HP_unsubscribed : forall s r, P s -> P (fst (on_unsubscribed s r)).
+Hypothesis HP_error : forall now s rt r u, P s -> P (fst (fst (on_error now s rt r u))).
+Hypothesis HP_record : forall s h t g, P s -> P (record_sub s h t g).
+Hypothesis HP_gathers : forall s gs hs, P s -> P (set_gathers s gs (hold hs (s_objs s))).
+Hypothesis HP_hold : forall s ls, P s -> P (set_objs s (hold ls (s_objs s))).
+Hypothesis HP_lose : forall s, P s -> P (fst (on_lose s)).
 
-Lemma run_items_invocations : forall ev its s,
-  let '(s2, g0, g1, g2) := run_items ev s its in
-  invocations g0 = invocations (now_outs its) /\ invocations g1 = map (expected_invocation ev) (later_of its) /\
-  invocations g2 = [].
+Lemma HP_gathers0 : forall s gs, P s -> P (set_gathers s gs (s_objs s)).
+Proof. intros s gs H. rewrite <- (hold_nil (s_objs s)). now apply HP_gathers. Qed.
+
+Lemma on_message_preserves : forall fl s m, P s -> P (fst (on_message fl s m)).
 Proof.
-  intros ev. induction its as [|[o|e] r IH]; intros s; simpl; [tauto| |].
-  - specialize (IH s). destruct (run_items ev s r) as [[[s2 g0] g1] g2]. destruct IH as [A [B C]].
-    destruct o; simpl; rewrite ?A; tauto.
-  - pose proof (invoke_invocations s e (e_args ev) (build_kwargs e ev)) as Hi.
-    destruct (invoke s e (e_args ev) (build_kwargs e ev)) as [s1 o1]. simpl in Hi.
-    specialize (IH s1). destruct (run_items ev s1 r) as [[[s2 g0] g1] g2]. destruct IH as [A [B C]].
-    rewrite !invocations_app, invocations_filter_imm, invocations_filter_nonimm, Hi, B, C. tauto.
+  intros fl s m Hs. unfold on_message. destruct (negb (s_joined s)); [exact Hs|]. destruct m.
+  - pose proof (HP_subscribed (is_tx fl) s request subscription Hs) as H.
+    destruct (on_subscribed (is_tx fl) s request subscription) as [[s1 o] hs]. exact H.
+  - pose proof (HP_unsubscribed s request Hs) as H. destruct (on_unsubscribed s request) as [s1 o]. exact H.
+  - pose proof (HP_unsubscribed s 0 Hs) as H. destruct (on_unsubscribed s 0) as [s1 o]. exact H.
+  - pose proof (HP_error (is_tx fl) s rtype request uri Hs) as H.
+    destruct (on_error (is_tx fl) s rtype request uri) as [[s1 o] hs]. exact H.
+  - now apply on_event_preserves.
 Qed.
 
-Lemma deliver_tx_no_later : forall snap ev s, later_of (snd (deliver Tx snap ev s)) = [].
+Lemma run_inline_preserves : forall fl ms s, P s -> P (fst (run_inline fl s ms)).
 Proof.
-  induction snap as [|e r IH]; intros ev s; simpl; [reflexivity|].
-  destruct (is_active s (se_label e)); [|apply IH].
-  destruct (invoke s e (e_args ev) (build_kwargs e ev)) as [s1 o1]. specialize (IH ev s1).
-  destruct (deliver Tx r ev s1) as [s2 i2]. simpl in *. now rewrite later_of_app, later_of_map.
+  intros fl. induction ms as [|m r IH]; intros s Hs; simpl; [exact Hs|].
+  pose proof (on_message_preserves fl s m Hs) as H1. destruct (on_message fl s m) as [s1 i1]. simpl in H1.
+  specialize (IH s1 H1). destruct (run_inline fl s1 r) as [s2 i2]. exact IH.
 Qed.
 
-Lemma on_event_inv : forall fl s ev, Inv s -> Inv (fst (on_event fl s ev)).
-Proof. intros. apply on_event_preserves; [apply api_unsubscribe_inv | assumption]. Qed.
-
-Lemma step_core_inv : forall fl s o, Inv s -> Inv (fst (step_core fl s o)).
+Lemma do_subscribe_preserves : forall fl s h o t g rin, P s -> P (fst (do_subscribe fl s h o t g rin)).
 Proof.
-  intros fl s o I. unfold step_core. destruct (is_message o && negb (s_joined s)); [exact I|].
-  destruct o; auto using api_subscribe_inv, api_subscribe_obj_inv, api_unsubscribe_inv, on_subscribed_inv,
-    on_unsubscribed_inv, on_error_inv, on_event_inv, on_lose_inv.
+  intros fl s h o t g rin Hs. unfold do_subscribe.
+  pose proof (run_inline_preserves fl rin _ (HP_record s h t g Hs)) as H.
+  destruct (run_inline fl (record_sub s h t g) rin) as [s2 i2]. exact H.
+Qed.
+
+Lemma return_future_preserves : forall fl s g, P s -> P (fst (return_future fl s g)).
+Proof.
+  intros fl s g Hs. unfold return_future. destruct (seal (s_gathers s) g) as [[gs o] hs].
+  destruct fl; simpl; [now apply HP_gathers | now apply HP_gathers0].
+Qed.
+
+Lemma api_subscribe_preserves : forall fl s sp o t rin, P s -> P (fst (api_subscribe fl s sp o t rin)).
+Proof.
+  intros fl s sp o t rin Hs. unfold api_subscribe. destruct (negb (opts_ok o)); [exact Hs|].
+  destruct (negb (s_transport s)); [exact Hs|].
+  match goal with |- context [do_subscribe fl ?s0 ?h o t ?g rin] =>
+    pose proof (do_subscribe_preserves fl s0 h o t g rin (HP_gathers0 s _ Hs)) as H1;
+    destruct (do_subscribe fl s0 h o t g rin) as [s1 i1] end. simpl in H1.
+  pose proof (return_future_preserves fl s1 (s_next s + 1) H1) as H2.
+  destruct (return_future fl s1 (s_next s + 1)) as [s2 i2]. exact H2.
+Qed.
+
+Lemma subscribe_all_preserves : forall fl ms s g call, P s -> P (fst (subscribe_all fl s g call ms)).
+Proof.
+  intros fl. induction ms as [|[[[sp own] t] rin] r IH]; intros s g call Hs; simpl; [exact Hs|].
+  match goal with |- context [do_subscribe fl s ?h ?o t g rin] =>
+    pose proof (do_subscribe_preserves fl s h o t g rin Hs) as H1;
+    destruct (do_subscribe fl s h o t g rin) as [s1 i1] end. simpl in H1.
+  specialize (IH s1 g call H1). destruct (subscribe_all fl s1 g call r) as [s2 i2]. exact IH.
+Qed.
+
+Lemma api_subscribe_obj_preserves : forall fl s ms call, P s -> P (fst (api_subscribe_obj fl s ms call)).
+Proof.
+  intros fl s ms call Hs. unfold api_subscribe_obj. destruct (negb (methods_ok call ms)); [exact Hs|].
+  destruct (negb (s_transport s)); [exact Hs|].
+  match goal with |- context [subscribe_all fl ?s0 ?g call ms] =>
+    pose proof (subscribe_all_preserves fl ms s0 g call (HP_gathers0 s _ Hs)) as H1;
+    destruct (subscribe_all fl s0 g call ms) as [s1 i1] end. simpl in H1.
+  pose proof (return_future_preserves fl s1 (s_next s + 1) H1) as H2.
+  destruct (return_future fl s1 (s_next s + 1)) as [s2 i2]. exact H2.
+Qed.
+
+Lemma api_unsubscribe_inl_preserves : forall fl s l rin, P s -> P (fst (api_unsubscribe_inl fl s l rin)).
+Proof.
+  intros fl s l rin Hs. unfold api_unsubscribe_inl.
+  pose proof (HP_unsub s l Hs) as H1. destruct (api_unsubscribe s l) as [s1 o1]. simpl in H1.
+  destruct o1 as [|[[]| | | | | |] [|]]; try exact H1.
+  pose proof (run_inline_preserves fl rin s1 H1) as H2. destruct (run_inline fl s1 rin) as [s2 i2]. exact H2.
+Qed.
+
+Lemma step_items_preserves : forall fl s o, P s -> P (fst (step_items fl s o)).
+Proof.
+  intros fl s o Hs. destruct o; simpl;
+    auto using api_subscribe_preserves, api_subscribe_obj_preserves, api_unsubscribe_inl_preserves, on_message_preserves.
+  pose proof (HP_lose s Hs) as H. destruct (on_lose s) as [s1 o1]. exact H.
+Qed.
+
+Lemma run_items_preserves : forall its s, P s -> P (ri_state (run_items s its)).
+Proof.
+  induction its as [|[o|o|e ev|[] ls] r IH]; intros s Hs; simpl; [exact Hs| | | | |].
+  - specialize (IH s Hs). destruct (run_items s r) as [[[[s2 g0] g1] g2] h2].
+    destruct (is_immediate o); [exact IH|]. destruct (is_gather o); exact IH.
+  - specialize (IH s Hs). destruct (run_items s r) as [[[[s2 g0] g1] g2] h2]. exact IH.
+  - pose proof (invoke_preserves P HP_unsub s e (e_args ev) (build_kwargs e ev) Hs) as H1.
+    destruct (invoke s e (e_args ev) (build_kwargs e ev)) as [s1 o1]. simpl in H1.
+    specialize (IH s1 H1). destruct (run_items s1 r) as [[[[s2 g0] g1] g2] h2]. exact IH.
+  - specialize (IH s Hs). destruct (run_items s r) as [[[[s2 g0] g1] g2] h2]. exact IH.
+  - apply IH. now apply HP_hold.
+Qed.
+
+Lemma finalize_preserves : forall fl s its, P s -> P (fst (finalize fl s its)).
+Proof.
+  intros fl s its Hs. unfold finalize. destruct fl; [exact Hs|].
+  pose proof (run_items_preserves its s Hs) as H. destruct (run_items s its) as [[[[s2 g0] g1] g2] h2].
+  simpl in *. now apply HP_hold.
+Qed.
+
+Lemma step_preserves : forall fl s o, P s -> P (fst (step fl s o)).
+Proof.
+  intros fl s o Hs. unfold step. pose proof (step_items_preserves fl s o Hs) as H1.
+  destruct (step_items fl s o) as [s1 its]. now apply finalize_preserves.
+Qed.
+
+Lemma run_preserves : forall fl ops s, P s -> P (fst (run fl s ops)).
+Proof.
+  induction ops as [|o r IH]; intros s Hs; simpl; [exact Hs|].
+  pose proof (step_preserves fl s o Hs) as H1. destruct (step fl s o) as [s1 o1]. simpl in H1.
+  specialize (IH s1 H1). destruct (run fl s1 r) as [s2 o2]. exact IH.
+Qed.
+End Stable.
+
+Lemma step_inv : forall fl s o, Inv s -> Inv (fst (step fl s o)).
+Proof.
+  intros fl s o. apply (step_preserves Inv); auto using api_unsubscribe_inv, on_subscribed_inv, on_unsubscribed_inv,
+    on_error_inv, record_sub_inv, set_gathers_inv, set_objs_inv, on_lose_inv.
 Qed.
 
 Lemma run_inv : forall fl ops s, Inv s -> Inv (fst (run fl s ops)).
 Proof.
-  induction ops as [|o r IH]; intros s I; simpl; [exact I|].
-  pose proof (step_core_inv fl s o I) as I1. rewrite <- (step_fst fl) in I1.
-  destruct (step fl s o) as [s1 o1]. simpl in I1. specialize (IH s1 I1).
-  destruct (run fl s1 r) as [s2 o2]. exact IH.
+  intros fl ops s. apply (run_preserves Inv); auto using api_unsubscribe_inv, on_subscribed_inv, on_unsubscribed_inv,
+    on_error_inv, record_sub_inv, set_gathers_inv, set_objs_inv, on_lose_inv.
 Qed.
 
 Lemma final_inv : forall fl ops, Inv (final fl ops).
 Proof. intros. apply run_inv, Inv_init. Qed.
 
+(* ------------------------------------------------------------------ the loop turns after a call *)
+Fixpoint plain (its : list item) : bool :=
+  match its with [] => true | (INow _ | ILater _ _) :: r => plain r | _ => false end.
+
+Lemma plain_app : forall a b, plain (a ++ b) = plain a && plain b.
+Proof. induction a as [|[o|o|e ev|b0 ls] r IH]; intros; simpl; auto. Qed.
+Lemma plain_map : forall os, plain (map INow os) = true.
+Proof. induction os; simpl; auto. Qed.
+
+Lemma deliver_plain : forall fl snap ev s, plain (snd (deliver fl snap ev s)) = true.
+Proof.
+  intros fl. induction snap as [|e r IH]; intros ev s; simpl; [reflexivity|].
+  destruct (is_active s (se_label e)); [|apply IH]. destruct (deferred fl e).
+  - specialize (IH ev s). destruct (deliver fl r ev s) as [s2 i2]. exact IH.
+  - destruct (invoke s e (e_args ev) (build_kwargs e ev)) as [s1 o1]. specialize (IH ev s1).
+    destruct (deliver fl r ev s1) as [s2 i2]. simpl in *. now rewrite plain_app, plain_map, IH.
+Qed.
+
+Lemma invocations_filter_nonimm : forall os, invocations (filter (fun o => negb (is_immediate o)) os) = [].
+Proof. intros. apply invocations_filter_not_imm. intros o H. now apply negb_true_iff in H. Qed.
+
+Lemma invocations_nonimm : forall o r, is_immediate o = false -> invocations (o :: r) = invocations r.
+Proof. intros o r H; destruct o; simpl in *; try discriminate; reflexivity. Qed.
+
+(* Tasks aside, nothing but what happened inside the call is an invocation; the Tasks make exactly their calls *)
+Lemma run_items_plain : forall its s, plain its = true ->
+  let '(s2, g0, g1, g2, h2) := run_items s its in
+  invocations g0 = invocations (now_outs its) /\ invocations g1 = later_invs its /\ invocations g2 = [] /\ h2 = [].
+Proof.
+  induction its as [|[o|o|e ev|b0 ls] r IH]; intros s Hp; simpl in *; try discriminate; [tauto| |].
+  - specialize (IH s Hp). destruct (run_items s r) as [[[[s2 g0] g1] g2] h2]. destruct IH as [A [B [C D]]].
+    destruct (is_immediate o) eqn:Ei.
+    + destruct o; simpl in *; try discriminate; rewrite ?A; tauto.
+    + destruct o; simpl in *; try discriminate; tauto.
+  - pose proof (invoke_invocations s e (e_args ev) (build_kwargs e ev)) as Hi.
+    destruct (invoke s e (e_args ev) (build_kwargs e ev)) as [s1 o1]. simpl in Hi.
+    specialize (IH s1 Hp). destruct (run_items s1 r) as [[[[s2 g0] g1] g2] h2]. destruct IH as [A [B [C D]]].
+    rewrite !invocations_app, invocations_filter_imm, invocations_filter_nonimm, Hi, B, C. tauto.
+Qed.
+
+Lemma run_items_invoked : forall its s x,
+  let '(s2, g0, g1, g2, h2) := run_items s its in
+  In x (invocations g0) \/ In x (invocations g1) \/ In x (invocations g2) ->
+  In x (invocations (now_outs its)) \/ In x (later_invs its).
+Proof.
+  induction its as [|[o|o|e ev|[] ls] r IH]; intros s x; simpl.
+  - tauto.
+  - specialize (IH s x). destruct (run_items s r) as [[[[s2 g0] g1] g2] h2].
+    destruct o; simpl in *; intuition.
+  - specialize (IH s x). destruct (run_items s r) as [[[[s2 g0] g1] g2] h2].
+    destruct o; simpl in *; intuition.
+  - pose proof (invoke_invocations s e (e_args ev) (build_kwargs e ev)) as Hi.
+    destruct (invoke s e (e_args ev) (build_kwargs e ev)) as [s1 o1]. simpl in Hi.
+    specialize (IH s1 x). destruct (run_items s1 r) as [[[[s2 g0] g1] g2] h2].
+    rewrite !invocations_app, invocations_filter_imm, invocations_filter_nonimm, Hi. simpl. intuition.
+  - specialize (IH s x). destruct (run_items s r) as [[[[s2 g0] g1] g2] h2]. exact IH.
+  - apply IH.
+Qed.
+
+Lemma deliver_tx_no_later : forall snap ev s, later_of (snd (deliver Tx snap ev s)) = [] /\ later_invs (snd (deliver Tx snap ev s)) = [].
+Proof.
+  induction snap as [|e r IH]; intros ev s; simpl; [tauto|].
+  destruct (is_active s (se_label e)); [|apply IH].
+  destruct (invoke s e (e_args ev) (build_kwargs e ev)) as [s1 o1]. specialize (IH ev s1).
+  destruct (deliver Tx r ev s1) as [s2 i2]. simpl in *.
+  now rewrite later_of_app, later_of_map, later_invs_app, later_invs_map.
+Qed.
+
+(* a call that created no Task and left nothing for later but completions: asyncio shows it in [order] *)
+Lemma run_items_now : forall os s, run_items s (map INow os) =
+  (s, filter is_immediate os, filter (fun o => negb (is_immediate o) && negb (is_gather o)) os, filter is_gather os, []).
+Proof.
+  induction os as [|o r IH]; intros s; simpl; [reflexivity|]. rewrite IH.
+  destruct (is_immediate o) eqn:Ei; simpl.
+  - destruct o; simpl in *; try discriminate; reflexivity.
+  - destruct (is_gather o); reflexivity.
+Qed.
+
+Lemma finalize_now : forall fl s os, finalize fl s (map INow os) = (s, order fl os).
+Proof.
+  intros [] s os; unfold finalize; [now rewrite now_outs_map|].
+  rewrite run_items_now. simpl. now rewrite hold_nil, set_objs_id.
+Qed.
+
 (* ------------------------------------------------------------------ C11: exact fan-out *)
-Lemma step_core_event : forall fl s ev, s_joined s = true -> step_core fl s (OpEvent ev) = on_event fl s ev.
-Proof. intros fl s ev H. unfold step_core. simpl. now rewrite H. Qed.
+Lemma step_event : forall fl s ev, s_joined s = true ->
+  step fl s (OpEvent ev) = finalize fl (fst (on_event fl s ev)) (snd (on_event fl s ev)).
+Proof. intros fl s ev H. unfold step. simpl. unfold on_message. rewrite H. simpl. now destruct (on_event fl s ev). Qed.
 
 Lemma build_kwargs_expected : forall e ev, (se_label e, e_args ev, build_kwargs e ev) = expected_invocation ev e.
 Proof. reflexivity. Qed.
@@ -835,44 +1017,70 @@ Inductive RunLater (ev : event) : sess -> list subent -> sess -> Prop :=
 
 Lemma deliver_dispatch : forall fl ev snap s,
   Dispatch fl ev s snap (invocations (now_outs (snd (deliver fl snap ev s)))) (later_of (snd (deliver fl snap ev s)))
-           (fst (deliver fl snap ev s)).
+           (fst (deliver fl snap ev s)) /\
+  later_invs (snd (deliver fl snap ev s)) = map (expected_invocation ev) (later_of (snd (deliver fl snap ev s))).
 Proof.
-  intros fl ev. induction snap as [|e r IH]; intros s; simpl; [constructor|].
-  destruct (is_active s (se_label e)) eqn:Ea; [|apply D_skip; [exact Ea | apply IH]].
+  intros fl ev. induction snap as [|e r IH]; intros s; simpl; [split; constructor|].
+  destruct (is_active s (se_label e)) eqn:Ea; [|destruct (IH s); split; [apply D_skip|]; assumption].
   destruct (deferred fl e) eqn:Ed.
-  - specialize (IH s). destruct (deliver fl r ev s) as [s2 i2]. simpl in *. now apply D_task.
+  - specialize (IH s). destruct (deliver fl r ev s) as [s2 i2]. simpl in *. destruct IH as [D L].
+    split; [now apply D_task | now rewrite L].
   - pose proof (invoke_invocations s e (e_args ev) (build_kwargs e ev)) as Hi.
     destruct (invoke s e (e_args ev) (build_kwargs e ev)) as [s1 o1] eqn:Ei. simpl in Hi.
     assert (Hs1 : after_handler s e ev = s1) by (unfold after_handler; now rewrite Ei).
-    specialize (IH s1). destruct (deliver fl r ev s1) as [s2 i2]. simpl in *.
-    rewrite now_outs_app, now_outs_map, invocations_app, Hi, later_of_app, later_of_map. simpl.
-    apply (D_call fl ev s e r _ _ _ Ea Ed). rewrite Hs1. exact IH.
+    specialize (IH s1). destruct (deliver fl r ev s1) as [s2 i2]. simpl in *. destruct IH as [D L].
+    rewrite now_outs_app, now_outs_map, invocations_app, Hi, later_of_app, later_of_map, later_invs_app, later_invs_map.
+    simpl. split; [|exact L]. apply (D_call fl ev s e r _ _ _ Ea Ed). rewrite Hs1. exact D.
 Qed.
 
-Lemma run_items_later : forall ev its s, RunLater ev s (later_of its) (ri_state (run_items ev s its)).
+Lemma deliver_later_ev : forall fl ev snap s0 e0 ev', In (ILater e0 ev') (snd (deliver fl snap ev s0)) -> ev' = ev.
 Proof.
-  intros ev. induction its as [|[o|e] r IH]; intros s; simpl; [constructor| |].
-  - specialize (IH s). destruct (run_items ev s r) as [[[s2 g0] g1] g2]. destruct (is_immediate o); exact IH.
-  - destruct (invoke s e (e_args ev) (build_kwargs e ev)) as [s1 o1] eqn:Ei.
+  intros fl ev. induction snap as [|e r IH]; intros s0 e0 ev' Hin; simpl in Hin; [destruct Hin|].
+  destruct (is_active s0 (se_label e)); [|eapply IH; eauto]. destruct (deferred fl e).
+  - specialize (IH s0 e0 ev'). destruct (deliver fl r ev s0) as [s2 i2]. simpl in *.
+    destruct Hin as [Hin|Hin]; [congruence | auto].
+  - destruct (invoke s0 e (e_args ev) (build_kwargs e ev)) as [s1 o1]. specialize (IH s1 e0 ev').
+    destruct (deliver fl r ev s1) as [s2 i2]. simpl in *. apply in_app_iff in Hin. destruct Hin as [Hin|Hin]; [|auto].
+    apply in_map_iff in Hin. destruct Hin as [x [Hx _]]. discriminate.
+Qed.
+
+Lemma run_items_later_gen : forall ev its, plain its = true ->
+  (forall e ev', In (ILater e ev') its -> ev' = ev) -> forall s, RunLater ev s (later_of its) (ri_state (run_items s its)).
+Proof.
+  intros ev. induction its as [|[o|o|e ev'|b0 ls] r IH]; intros Hp Hev s; simpl in *; try discriminate; [constructor| |].
+  - assert (R := IH Hp (fun e ev' H => Hev e ev' (or_intror H)) s).
+    destruct (run_items s r) as [[[[s2 g0] g1] g2] h2]. destruct (is_immediate o); [exact R|]. destruct (is_gather o); exact R.
+  - assert (ev' = ev) by (apply (Hev e); now left). subst ev'.
+    destruct (invoke s e (e_args ev) (build_kwargs e ev)) as [s1 o1] eqn:Ei.
     assert (Hs1 : after_handler s e ev = s1) by (unfold after_handler; now rewrite Ei).
-    specialize (IH s1). destruct (run_items ev s1 r) as [[[s2 g0] g1] g2]. apply R_task. rewrite Hs1. exact IH.
+    assert (R := IH Hp (fun e0 ev' H => Hev e0 ev' (or_intror H)) s1).
+    destruct (run_items s1 r) as [[[[s2 g0] g1] g2] h2]. apply R_task. rewrite Hs1. exact R.
+Qed.
+
+Lemma run_items_later : forall ev snap fl s0 s, RunLater ev s (later_of (snd (deliver fl snap ev s0)))
+  (ri_state (run_items s (snd (deliver fl snap ev s0)))).
+Proof.
+  intros. apply run_items_later_gen; [apply deliver_plain | intros e ev'; apply deliver_later_ev].
 Qed.
 
 Lemma on_event_dispatch : forall fl s ev lst, lookup (e_sub ev) (s_subs s) = Some lst ->
+  let r := finalize fl (fst (on_event fl s ev)) (snd (on_event fl s ev)) in
   exists now later s1,
-    Dispatch fl ev s lst now later s1 /\ RunLater ev s1 later (fst (on_event fl s ev)) /\
-    invocations (snd (on_event fl s ev)) = now ++ map (expected_invocation ev) later.
+    Dispatch fl ev s lst now later s1 /\ RunLater ev s1 later (fst r) /\
+    invocations (snd r) = now ++ map (expected_invocation ev) later.
 Proof.
   intros fl s ev lst Hl. unfold on_event. rewrite Hl.
-  pose proof (deliver_dispatch fl ev lst s) as D. pose proof (deliver_tx_no_later lst ev s) as T.
+  destruct (deliver_dispatch fl ev lst s) as [D L]. pose proof (deliver_tx_no_later lst ev s) as [T1 T2].
+  pose proof (deliver_plain fl lst ev s) as Hp. pose proof (run_items_later ev lst fl s) as R.
   destruct fl.
-  - destruct (deliver Tx lst ev s) as [s1 its]. simpl in *. rewrite T in D.
+  - destruct (deliver Tx lst ev s) as [s1 its]. simpl in *. rewrite T1 in D.
     exists (invocations (now_outs its)), [], s1. split; [exact D|]. split; [constructor | now rewrite app_nil_r].
-  - clear T. destruct (deliver Aio lst ev s) as [s1 its]. simpl in *.
-    pose proof (run_items_later ev its s1) as R. pose proof (run_items_invocations ev its s1) as V.
-    destruct (run_items ev s1 its) as [[[s2 g0] g1] g2]. destruct V as [A [B C]]. simpl in *.
-    exists (invocations (now_outs its)), (later_of its), s1. split; [exact D|]. split; [exact R|].
-    now rewrite !invocations_app, A, B, C, app_nil_r.
+  - clear T1 T2. destruct (deliver Aio lst ev s) as [s1 its]. simpl in *. specialize (R s1).
+    pose proof (run_items_plain its s1 Hp) as V.
+    destruct (run_items s1 its) as [[[[s2 g0] g1] g2] h2]. destruct V as [A [B [C E]]]. subst h2. simpl in *.
+    exists (invocations (now_outs its)), (later_of its), s1. split; [exact D|].
+    rewrite hold_nil, set_objs_id. split; [exact R|].
+    now rewrite !invocations_app, A, B, C, app_nil_r, L.
 Qed.
 
 Lemma exact_fanout : forall fl s ev,
@@ -882,8 +1090,7 @@ Lemma exact_fanout : forall fl s ev,
     RunLater ev s1 later (fst (step fl s (OpEvent ev))) /\
     invocations (snd (step fl s (OpEvent ev))) = now ++ map (expected_invocation ev) later.
 Proof.
-  intros fl s ev Hj Hk. rewrite step_fst, step_snd_event, step_core_event by exact Hj.
-  apply on_event_dispatch. now apply attached_lookup.
+  intros fl s ev Hj Hk. rewrite step_event by exact Hj. apply on_event_dispatch. now apply attached_lookup.
 Qed.
 
 (* consequences of the discipline *)
@@ -954,34 +1161,38 @@ Qed.
 
 Lemma deliver_nonreentrant : forall fl ev snap s,
   reentrant_free snap -> (forall e, In e snap -> is_active s (se_label e) = true) ->
-  exists its, deliver fl snap ev s = (s, its) /\
+  exists its, deliver fl snap ev s = (s, its) /\ plain its = true /\
     invocations (now_outs its) = map (expected_invocation ev) (filter (fun e => negb (deferred fl e)) snap) /\
-    later_of its = filter (deferred fl) snap /\ forallb benign (now_outs its) = true.
+    later_of its = filter (deferred fl) snap /\ later_invs its = map (expected_invocation ev) (filter (deferred fl) snap) /\
+    forallb benign (now_outs its) = true.
 Proof.
   intros fl ev. induction snap as [|e r IH]; intros s Hnr Hact; simpl.
   - exists []. repeat split; reflexivity.
   - rewrite (Hact e) by now left.
-    destruct (IH s) as [i2 [E2 [A2 [L2 B2]]]]; [intros x Hx; apply Hnr; now right | intros x Hx; apply Hact; now right|].
+    destruct (IH s) as [i2 [E2 [P2 [A2 [L2 [V2 B2]]]]]]; [intros x Hx; apply Hnr; now right | intros x Hx; apply Hact; now right|].
     destruct (deferred fl e); simpl.
-    + rewrite E2. exists (ILater e :: i2). simpl. rewrite L2. repeat split; assumption.
+    + rewrite E2. exists (ILater e ev :: i2). simpl. rewrite L2, V2. repeat split; assumption.
     + destruct (invoke_nonreentrant s e (e_args ev) (build_kwargs e ev)) as [o1 [E1 B1]]; [apply Hnr; now left|].
       pose proof (invoke_invocations s e (e_args ev) (build_kwargs e ev)) as A1. rewrite E1 in *. simpl in A1.
       rewrite E2. exists (map INow o1 ++ i2). split; [reflexivity|].
-      rewrite now_outs_app, now_outs_map, invocations_app, A1, A2, later_of_app, later_of_map, forallb_app, B1, B2, L2.
+      rewrite plain_app, plain_map, P2, now_outs_app, now_outs_map, invocations_app, A1, A2, later_of_app, later_of_map,
+        later_invs_app, later_invs_map, forallb_app, B1, B2, L2, V2.
       repeat split; reflexivity.
 Qed.
 
-Lemma run_items_nonreentrant : forall ev its s, reentrant_free (later_of its) -> forallb benign (now_outs its) = true ->
-  exists g0 g1 g2, run_items ev s its = (s, g0, g1, g2) /\ forallb benign (g0 ++ g1 ++ g2) = true.
+Lemma run_items_nonreentrant : forall its s, plain its = true -> reentrant_free (later_of its) ->
+  forallb benign (now_outs its) = true ->
+  exists g0 g1 g2, run_items s its = (s, g0, g1, g2, []) /\ forallb benign (g0 ++ g1 ++ g2) = true.
 Proof.
-  intros ev. induction its as [|[o|e] r IH]; intros s Hnr Hb; simpl in *.
+  induction its as [|[o|o|e ev|b0 ls] r IH]; intros s Hp Hnr Hb; simpl in *; try discriminate.
   - exists [], [], []. split; reflexivity.
   - apply andb_true_iff in Hb. destruct Hb as [Hb1 Hb2].
-    destruct (IH s Hnr Hb2) as [g0 [g1 [g2 [E B]]]]. rewrite E.
+    destruct (IH s Hp Hnr Hb2) as [g0 [g1 [g2 [E B]]]]. rewrite E.
     rewrite !forallb_app in B. apply andb_true_iff in B. destruct B as [B0 B]. apply andb_true_iff in B. destruct B as [B1 B2].
-    destruct (is_immediate o); do 3 eexists; (split; [reflexivity|]); rewrite !forallb_app; simpl; rewrite ?Hb1, ?B0, ?B1, ?B2; reflexivity.
+    destruct (is_immediate o); [|destruct (is_gather o)]; do 3 eexists; (split; [reflexivity|]);
+      rewrite !forallb_app; simpl; rewrite ?Hb1, ?B0, ?B1, ?B2; reflexivity.
   - destruct (invoke_nonreentrant s e (e_args ev) (build_kwargs e ev)) as [o1 [E1 B1]]; [apply Hnr; now left|].
-    rewrite E1. destruct (IH s) as [g0 [g1 [g2 [E B]]]]; [intros x Hx; apply Hnr; now right | exact Hb|]. rewrite E.
+    rewrite E1. destruct (IH s) as [g0 [g1 [g2 [E B]]]]; [exact Hp | intros x Hx; apply Hnr; now right | exact Hb|]. rewrite E.
     do 3 eexists. split; [reflexivity|].
     rewrite !forallb_app in *. apply andb_true_iff in B. destruct B as [B0 B]. apply andb_true_iff in B. destruct B as [B1' B2].
     assert (F : forall p, forallb benign (filter p o1) = true).
@@ -996,25 +1207,26 @@ Proof.
   destruct (inv_att s I _ _ _ El H) as [o [A [B _]]]. unfold is_active. now rewrite A.
 Qed.
 
-Lemma on_event_nonreentrant : forall fl s ev, Inv s ->
+Lemma event_nonreentrant : forall fl s ev, Inv s -> s_joined s = true ->
   In (e_sub ev) (keys (s_subs s)) -> nonreentrant_at s (e_sub ev) ->
-  exists os, on_event fl s ev = (s, os) /\
+  exists os, step fl s (OpEvent ev) = (s, os) /\
     invocations os = map (expected_invocation ev) (filter (fun e => negb (deferred fl e)) (attached s (e_sub ev)))
                   ++ map (expected_invocation ev) (filter (deferred fl) (attached s (e_sub ev))) /\
     forallb benign os = true.
 Proof.
-  intros fl s ev I Hk Hnr. unfold on_event. rewrite (attached_lookup s _ Hk).
-  destruct (deliver_nonreentrant fl ev (attached s (e_sub ev)) s Hnr) as [its [E [A [L B]]]];
+  intros fl s ev I Hj Hk Hnr. rewrite step_event by exact Hj. unfold on_event. rewrite (attached_lookup s _ Hk).
+  destruct (deliver_nonreentrant fl ev (attached s (e_sub ev)) s Hnr) as [its [E [Hp [A [L [V B]]]]]];
     [intros e He; eapply attached_active; eauto|].
-  rewrite E. destruct fl.
+  rewrite E. simpl. destruct fl; simpl.
   - exists (now_outs its). split; [reflexivity|]. split; [|exact B].
     rewrite A. simpl. assert (F : forall l : list subent, filter (fun _ => false) l = []) by (induction l; auto).
     now rewrite F, app_nil_r.
-  - destruct (run_items_nonreentrant ev its s) as [g0 [g1 [g2 [E2 B2]]]];
+  - destruct (run_items_nonreentrant its s Hp) as [g0 [g1 [g2 [E2 B2]]]];
       [rewrite L; intros x Hx; apply filter_In in Hx; apply Hnr; tauto | exact B|].
-    pose proof (run_items_invocations ev its s) as V. rewrite E2 in *. destruct V as [V0 [V1 V2]].
+    pose proof (run_items_plain its s Hp) as W. rewrite E2 in *. destruct W as [V0 [V1 [V2 _]]]. simpl.
+    rewrite hold_nil, set_objs_id.
     exists (g0 ++ g1 ++ g2). split; [reflexivity|]. split; [|exact B2].
-    now rewrite !invocations_app, V0, V1, V2, A, L, app_nil_r.
+    now rewrite !invocations_app, V0, V1, V2, A, V, app_nil_r.
 Qed.
 
 Lemma benign_facts : forall os, forallb benign os = true ->
@@ -1036,8 +1248,8 @@ Lemma isolation : forall fl ops ev, let s := final fl ops in
   (forall x, ~ In (ORaised x) (snd (step fl s (OpEvent ev)))) /\
   filter sends_unsubscribe (snd (step fl s (OpEvent ev))) = [].
 Proof.
-  intros fl ops ev s Hj Hk Hnr. rewrite step_fst, step_snd_event, step_core_event by exact Hj.
-  destruct (on_event_nonreentrant fl s ev (final_inv fl ops) Hk Hnr) as [os [E [A B]]].
+  intros fl ops ev s Hj Hk Hnr.
+  destruct (event_nonreentrant fl s ev (final_inv fl ops) Hj Hk Hnr) as [os [E [A B]]].
   rewrite E. simpl. destruct (benign_facts os B) as [R S]. tauto.
 Qed.
 
@@ -1061,15 +1273,218 @@ Proof.
   rewrite filter_all; [now rewrite app_nil_r|]. intros x Hx. now rewrite (Hd x Hx).
 Qed.
 
-(* ------------------------------------------------------------------ C11: never after unsubscribe *)
-Lemma subscribe_all_objs : forall ms s g, s_objs (fst (subscribe_all s g ms)) = s_objs s.
+(* ------------------------------------------------------------------ outputs of everything but a dispatch: no invocation, no UNSUBSCRIBE *)
+Definition quiet (o : out) : bool :=
+  match o with ODone _ _ | ODoneG _ _ | ODoneU _ _ | ORaised _ | OSent (MSubscribe _ _ _ _) => true | _ => false end.
+
+Lemma quiet_facts : forall os, forallb quiet os = true -> invocations os = [] /\ filter sends_unsubscribe os = [].
 Proof.
-  induction ms as [|[h t] r IH]; intros s g; [reflexivity|]. rewrite subscribe_all_cons.
-  destruct (do_subscribe s h t (Some g)) as [s1 o1] eqn:E1. specialize (IH s1 g).
-  destruct (subscribe_all s1 g r) as [s2 o2]. simpl in *. rewrite IH.
-  unfold do_subscribe in E1. inversion E1. reflexivity.
+  induction os as [|o r IH]; intros H; simpl in *; [tauto|]. apply andb_true_iff in H. destruct H as [H1 H2].
+  destruct (IH H2) as [A B]. destruct o as [[]| | | | | |]; simpl in *; try discriminate; tauto.
 Qed.
 
+Lemma settle_quiet : forall gs g single sealed ms, forallb quiet (snd (fst (settle gs g single sealed ms))) = true.
+Proof.
+  intros. unfold settle. destruct (if sealed then all_done ms else None) as [rs|]; [|reflexivity]. simpl.
+  unfold done_out. destruct single; [|reflexivity]. destruct rs as [|r [|]]; reflexivity.
+Qed.
+Lemma complete_sub_quiet : forall gs rid rq r, forallb quiet (snd (fst (complete_sub gs rid rq r))) = true.
+Proof. intros. unfold complete_sub. destruct (lookup (sr_group rq) gs); [apply settle_quiet | reflexivity]. Qed.
+Lemma seal_quiet : forall gs g, forallb quiet (snd (fst (seal gs g))) = true.
+Proof. intros. unfold seal. destruct (lookup g gs); [apply settle_quiet | reflexivity]. Qed.
+
+Lemma on_subscribed_quiet : forall now s r sid, forallb quiet (snd (fst (on_subscribed now s r sid))) = true.
+Proof.
+  intros. unfold on_subscribed. destruct (lookup r (s_subreqs s)) as [rq|]; [|reflexivity].
+  pose proof (complete_sub_quiet (s_gathers s) r rq (RSub sid)) as X.
+  destruct (complete_sub (s_gathers s) r rq (RSub sid)) as [[gs o] hs]. exact X.
+Qed.
+Lemma on_unsubscribed_quiet : forall s r, forallb quiet (snd (on_unsubscribed s r)) = true.
+Proof. intros. unfold on_unsubscribed. destruct (lookup r (s_unsubreqs s)); reflexivity. Qed.
+Lemma on_error_quiet : forall now s rt r u, forallb quiet (snd (fst (on_error now s rt r u))) = true.
+Proof.
+  intros. unfold on_error. destruct (rt =? 32).
+  - destruct (lookup r (s_subreqs s)) as [rq|]; [|reflexivity].
+    pose proof (complete_sub_quiet (s_gathers s) r rq (RErr (EAppError u))) as X.
+    destruct (complete_sub (s_gathers s) r rq (RErr (EAppError u))) as [[gs o] hs]. exact X.
+  - destruct (rt =? 34); [|reflexivity]. destruct (lookup r (s_unsubreqs s)); reflexivity.
+Qed.
+Lemma reject_subs_quiet : forall rqs gs, forallb quiet (snd (fst (reject_subs gs rqs))) = true.
+Proof.
+  induction rqs as [|[rid rq] r IH]; intros gs; simpl; [reflexivity|].
+  pose proof (complete_sub_quiet gs rid rq (RErr EClosed)) as A.
+  destruct (complete_sub gs rid rq (RErr EClosed)) as [[gs1 o1] h1]. specialize (IH gs1).
+  destruct (reject_subs gs1 r) as [[gs2 o2] h2]. simpl in *. now rewrite forallb_app, A, IH.
+Qed.
+Lemma on_lose_quiet : forall s, forallb quiet (snd (on_lose s)) = true.
+Proof.
+  intros. unfold on_lose. destruct (s_joined s); [|reflexivity].
+  pose proof (reject_subs_quiet (s_subreqs s) (s_gathers s)) as X.
+  destruct (reject_subs (s_gathers s) (s_subreqs s)) as [[gs o1] hs]. simpl in *. rewrite forallb_app, X. simpl.
+  induction (s_unsubreqs s); simpl; auto.
+Qed.
+
+Lemma later_of_hold_items : forall fl o hs, later_of (hold_items fl o hs) = [] /\ now_outs (hold_items fl o hs) = [].
+Proof. intros [] o hs; split; reflexivity. Qed.
+
+(* ------------------------------------------------------------------ who can be called by an operation *)
+Section Invoked.
+Variable P : sess -> Prop.
+Hypothesis HP_unsub : forall s l, P s -> P (fst (api_unsubscribe s l)).
+Hypothesis HP_subscribed : forall now s r sid, P s -> P (fst (fst (on_subscribed now s r sid))).
+Hypothesis HP_unsubscribed : forall s r, P s -> P (fst (on_unsubscribed s r)).
+Hypothesis HP_error : forall now s rt r u, P s -> P (fst (fst (on_error now s rt r u))).
+Hypothesis HP_record : forall s h t g, P s -> P (record_sub s h t g).
+Hypothesis HP_gathers : forall s gs hs, P s -> P (set_gathers s gs (hold hs (s_objs s))).
+Hypothesis HP_hold : forall s ls, P s -> P (set_objs s (hold ls (s_objs s))).
+Hypothesis HP_lose : forall s, P s -> P (fst (on_lose s)).
+
+Definition called (l : N) (its : list item) : Prop :=
+  In l (invoked_labels (now_outs its)) \/ In l (labels (later_of its)).
+Definition Active (l : N) : Prop := exists s', P s' /\ is_active s' l = true.
+
+Lemma called_app : forall l a b, called l (a ++ b) -> called l a \/ called l b.
+Proof.
+  intros l a b. unfold called. rewrite now_outs_app, invoked_labels_app, later_of_app, labels_app, !in_app_iff. tauto.
+Qed.
+
+Lemma called_quiet : forall l os extra, forallb quiet os = true -> later_of extra = [] -> now_outs extra = [] ->
+  ~ called l (map INow os ++ extra).
+Proof.
+  intros l os extra Hq H1 H2 [H|H].
+  - rewrite now_outs_app, now_outs_map, H2, app_nil_r in H. unfold invoked_labels in H.
+    destruct (quiet_facts os Hq) as [A _]. rewrite A in H. destruct H.
+  - rewrite later_of_app, later_of_map, H1 in H. destruct H.
+Qed.
+
+Lemma on_message_called : forall fl s m l, P s -> called l (snd (on_message fl s m)) -> Active l.
+Proof.
+  intros fl s m l Hs Hc. unfold on_message in Hc. destruct (negb (s_joined s)).
+  - exfalso. revert Hc. apply (called_quiet l [ORaised EProtocolError] []); reflexivity.
+  - destruct m.
+    + pose proof (on_subscribed_quiet (is_tx fl) s request subscription) as Q.
+      destruct (on_subscribed (is_tx fl) s request subscription) as [[s1 o] hs]. simpl in *.
+      exfalso. revert Hc. apply called_quiet; [exact Q | |]; apply later_of_hold_items.
+    + pose proof (on_unsubscribed_quiet s request) as Q. destruct (on_unsubscribed s request) as [s1 o]. simpl in *.
+      exfalso. revert Hc. rewrite <- (app_nil_r (map INow o)). apply called_quiet; [exact Q | |]; reflexivity.
+    + pose proof (on_unsubscribed_quiet s 0) as Q. destruct (on_unsubscribed s 0) as [s1 o]. simpl in *.
+      exfalso. revert Hc. rewrite <- (app_nil_r (map INow o)). apply called_quiet; [exact Q | |]; reflexivity.
+    + pose proof (on_error_quiet (is_tx fl) s rtype request uri) as Q.
+      destruct (on_error (is_tx fl) s rtype request uri) as [[s1 o] hs]. simpl in *.
+      exfalso. revert Hc. apply called_quiet; [exact Q | |]; apply later_of_hold_items.
+    + eapply (on_event_invoked P HP_unsub); eauto.
+Qed.
+
+Lemma run_inline_called : forall fl ms s l, P s -> called l (snd (run_inline fl s ms)) -> Active l.
+Proof.
+  intros fl. induction ms as [|m r IH]; intros s l Hs Hc; simpl in Hc; [destruct Hc as [[]|[]]|].
+  pose proof (on_message_preserves P HP_unsub HP_subscribed HP_unsubscribed HP_error fl s m Hs) as H1.
+  pose proof (on_message_called fl s m l Hs) as C1.
+  destruct (on_message fl s m) as [s1 i1]. simpl in *.
+  specialize (IH s1 l H1). destruct (run_inline fl s1 r) as [s2 i2]. simpl in *.
+  apply called_app in Hc. tauto.
+Qed.
+
+Lemma called_cons_quiet : forall l o its, quiet o = true -> called l (INow o :: its) -> called l its.
+Proof.
+  intros l o its Hq [H|H]; [left | right; exact H]. simpl in H. unfold invoked_labels in *.
+  destruct o as [[]| | | | | |]; simpl in *; try discriminate; exact H.
+Qed.
+
+Lemma do_subscribe_called : forall fl s h o t g rin l, P s -> called l (snd (do_subscribe fl s h o t g rin)) -> Active l.
+Proof.
+  intros fl s h o t g rin l Hs Hc. unfold do_subscribe in Hc.
+  pose proof (run_inline_called fl rin _ l (HP_record s h t g Hs)) as C.
+  destruct (run_inline fl (record_sub s h t g) rin) as [s2 i2]. simpl in *.
+  apply C. eapply called_cons_quiet; [|exact Hc]. reflexivity.
+Qed.
+
+Lemma return_future_called : forall fl s g l, ~ called l (snd (return_future fl s g)).
+Proof.
+  intros fl s g l. unfold return_future. pose proof (seal_quiet (s_gathers s) g) as Q.
+  destruct (seal (s_gathers s) g) as [[gs o] hs]. simpl in Q. destruct fl; simpl.
+  - rewrite <- (app_nil_r (map INow o)). apply called_quiet; [exact Q | |]; reflexivity.
+  - intros [H|H].
+    + rewrite now_outs_app, now_outs_soon in H. simpl in H. rewrite app_nil_r in H. unfold invoked_labels in H.
+      destruct (quiet_facts o Q) as [A _]. rewrite A in H. destruct H.
+    + rewrite later_of_app in H. simpl in H. rewrite app_nil_r in H.
+      assert (Z : later_of (map ISoon o) = []) by (clear; induction o; simpl; auto). rewrite Z in H. destruct H.
+Qed.
+
+Lemma subscribe_all_called : forall fl ms s g call l, P s -> called l (snd (subscribe_all fl s g call ms)) -> Active l.
+Proof.
+  intros fl. induction ms as [|[[[sp own] t] rin] r IH]; intros s g call l Hs Hc; simpl in Hc; [destruct Hc as [[]|[]]|].
+  match type of Hc with context [do_subscribe fl s ?h ?o t g rin] =>
+    pose proof (do_subscribe_preserves P HP_unsub HP_subscribed HP_unsubscribed HP_error HP_record fl s h o t g rin Hs) as H1;
+    pose proof (do_subscribe_called fl s h o t g rin l Hs) as C1;
+    destruct (do_subscribe fl s h o t g rin) as [s1 i1] end. simpl in *.
+  specialize (IH s1 g call l H1). destruct (subscribe_all fl s1 g call r) as [s2 i2]. simpl in *.
+  apply called_app in Hc. tauto.
+Qed.
+
+Lemma step_items_called : forall fl s o l, P s -> called l (snd (step_items fl s o)) -> Active l.
+Proof.
+  intros fl s o l Hs Hc. destruct o; simpl in Hc; try (eapply on_message_called; eauto; fail).
+  - unfold api_subscribe in Hc. destruct (negb (opts_ok o)).
+    { exfalso. revert Hc. apply (called_quiet l [ORaised EAssertion] []); reflexivity. }
+    destruct (negb (s_transport s)).
+    { exfalso. revert Hc. apply (called_quiet l [ORaised ETransportLost] []); reflexivity. }
+    match type of Hc with context [do_subscribe fl ?s0 ?h o topic ?g rin] =>
+      pose proof (do_subscribe_called fl s0 h o topic g rin l (HP_gathers0 P HP_gathers s _ Hs)) as C1;
+      destruct (do_subscribe fl s0 h o topic g rin) as [s1 i1] end. simpl in *.
+    pose proof (return_future_called fl s1 (s_next s + 1) l) as C2.
+    destruct (return_future fl s1 (s_next s + 1)) as [s2 i2]. simpl in *. apply called_app in Hc. tauto.
+  - unfold api_subscribe_obj in Hc. destruct (negb (methods_ok call ms)).
+    { exfalso. revert Hc. apply (called_quiet l [ORaised EAssertion] []); reflexivity. }
+    destruct (negb (s_transport s)).
+    { exfalso. revert Hc. apply (called_quiet l [ORaised ETransportLost] []); reflexivity. }
+    match type of Hc with context [subscribe_all fl ?s0 ?g call ms] =>
+      pose proof (subscribe_all_called fl ms s0 g call l (HP_gathers0 P HP_gathers s _ Hs)) as C1;
+      destruct (subscribe_all fl s0 g call ms) as [s1 i1] end. simpl in *.
+    pose proof (return_future_called fl s1 (s_next s + 1) l) as C2.
+    destruct (return_future fl s1 (s_next s + 1)) as [s2 i2]. simpl in *. apply called_app in Hc. tauto.
+  - unfold api_unsubscribe_inl in Hc.
+    pose proof (HP_unsub s label Hs) as H1.
+    assert (Q : forallb quiet (snd (api_unsubscribe s label)) = true \/
+                exists r sid, snd (api_unsubscribe s label) = [OSent (MUnsubscribe r sid)]).
+    { destruct (api_unsubscribe_cases s label) as [E|[[e E]|[o' [lst [_ [_ [_ [_ [_ [_ [[_ E]|[_ E]]]]]]]]]]]];
+        rewrite E; simpl; eauto. }
+    destruct (api_unsubscribe s label) as [s1 o1]. simpl in *.
+    destruct Q as [Q|[r [sid ->]]].
+    + assert (Hc' : called l (map INow o1)).
+      { destruct o1 as [|[[]| | | | | |] [|]]; simpl in *; try exact Hc; discriminate. }
+      exfalso. revert Hc'. rewrite <- (app_nil_r (map INow o1)). apply called_quiet; [exact Q | |]; reflexivity.
+    + pose proof (run_inline_called fl rin s1 l H1) as C. destruct (run_inline fl s1 rin) as [s2 i2]. simpl in *.
+      apply C. destruct Hc as [Hc|Hc]; [left | right].
+      * simpl in Hc. unfold invoked_labels in *. simpl in Hc. rewrite now_outs_app, invocations_app, map_app, in_app_iff in Hc.
+        clear -Hc. induction i2 as [|[o|o|e ev|b0 ls] r IH]; simpl in *; [tauto| | | |];
+          try (destruct Hc as [Hc|Hc]; [apply IH; now left | apply IH; now right]).
+        -- destruct o; simpl in *; try (destruct (label0 =? label)); simpl in *;
+             rewrite ?invocations_app, ?map_app, ?in_app_iff in *; simpl in *; intuition.
+        -- destruct o; simpl in *; intuition.
+      * simpl in Hc. rewrite later_of_app, labels_app, in_app_iff in Hc.
+        clear -Hc. induction i2 as [|[o|o|e ev|b0 ls] r IH]; simpl in *; [tauto| | | |];
+          try (destruct Hc as [Hc|Hc]; [apply IH; now left | apply IH; now right]).
+        -- destruct o; simpl in *; try (destruct (label0 =? label)); simpl in *; intuition.
+        -- intuition.
+  - pose proof (on_lose_quiet s) as Q. destruct (on_lose s) as [s1 o1]. simpl in *.
+    exfalso. revert Hc. rewrite <- (app_nil_r (map INow o1)). apply called_quiet; [exact Q | |]; reflexivity.
+Qed.
+
+Lemma step_called : forall fl s o l, P s -> In l (invoked_labels (snd (step fl s o))) -> Active l.
+Proof.
+  intros fl s o l Hs Hin. unfold step in Hin.
+  pose proof (step_items_called fl s o l Hs) as C. destruct (step_items fl s o) as [s1 its]. simpl in C.
+  apply C. unfold finalize in Hin. destruct fl; simpl in Hin; [now left|].
+  pose proof (run_items_invoked its s1) as V. destruct (run_items s1 its) as [[[[s2 g0] g1] g2] h2]. simpl in Hin.
+  unfold invoked_labels in Hin. apply in_map_iff in Hin. destruct Hin as [x [Hx Hin]].
+  rewrite !invocations_app, !in_app_iff in Hin. destruct (V x Hin) as [H|H].
+  - left. unfold invoked_labels. apply in_map_iff. eauto.
+  - right. rewrite <- later_invs_labels. apply in_map_iff. eauto.
+Qed.
+End Invoked.
+
+(* ------------------------------------------------------------------ C11: never after unsubscribe *)
 (* a Subscription object that exists and is inactive: it stays that way whatever happens *)
 Definition dead (s : sess) (l : N) : Prop := exists o, lookup l (s_objs s) = Some o /\ so_active o = false.
 
@@ -1082,9 +1497,9 @@ Proof.
   intros hs objs l o H A. destruct (lookup_hold_fwd hs objs l o H) as [o' [H1 [H2 _]]]. exists o'. split; congruence.
 Qed.
 
-Lemma dead_unsubscribe : forall s l t, dead s l -> dead (fst (api_unsubscribe s t)) l.
+Lemma dead_unsubscribe : forall l s t, dead s l -> dead (fst (api_unsubscribe s t)) l.
 Proof.
-  intros s l t [o [Ho Ha]].
+  intros l s t [o [Ho Ha]].
   destruct (api_unsubscribe_cases s t) as [E|[[e E]|[o' [lst [Ho' [_ [_ [_ [_ [_ [[_ E]|[_ E]]]]]]]]]]]];
     rewrite E; unfold dead; simpl; try (exists o; tauto);
     (destruct (N.eq_dec l t) as [->|Hne];
@@ -1092,110 +1507,47 @@ Proof.
      | exists o; rewrite lookup_assoc_set_other by exact Hne; tauto]).
 Qed.
 
-Lemma dead_step : forall fl s o l, dead s l -> dead (fst (step_core fl s o)) l.
+Lemma dead_subscribed : forall l now s r sid, dead s l -> dead (fst (fst (on_subscribed now s r sid))) l.
 Proof.
-  intros fl s o l D. unfold step_core. destruct (is_message o && negb (s_joined s)); [exact D|].
-  destruct o; simpl; try (apply (on_event_preserves (fun s => dead s l)); [intros; now apply dead_unsubscribe | exact D]);
-    destruct D as [ob [Ho Ha]].
-  - unfold api_subscribe. destruct (negb (s_transport s)); simpl; exists ob; tauto.
-  - unfold api_subscribe_obj. destruct (negb (s_transport s)); [exists ob; tauto|].
-    destruct ms as [|m r]; [exists ob; tauto|].
-    pose proof (subscribe_all_objs (m :: r) s (s_next s + 1)) as X.
-    destruct (subscribe_all s (s_next s + 1) (m :: r)) as [s1 o1]. simpl in *. rewrite X. exists ob; tauto.
-  - apply dead_unsubscribe. exists ob; tauto.
-  - unfold on_subscribed. destruct (lookup request (s_subreqs s)) as [rq|]; [|exists ob; tauto].
-    destruct (complete_sub (s_gathers s) request rq (RSub subscription)) as [[gs o1] hs]. simpl.
-    apply (dead_hold hs _ l ob); [|exact Ha]. rewrite lookup_app, Ho. reflexivity.
-  - unfold on_unsubscribed. destruct (lookup request (s_unsubreqs s)) as [rq|]; [|exists ob; tauto]. unfold dead. simpl.
-    rewrite lookup_deactivate, Ho. eexists. split; [reflexivity|]. destruct (memN l _); [reflexivity | exact Ha].
-  - unfold on_unsubscribed. destruct (lookup 0 (s_unsubreqs s)) as [rq|]; [|exists ob; tauto]. unfold dead. simpl.
-    rewrite lookup_deactivate, Ho. eexists. split; [reflexivity|]. destruct (memN l _); [reflexivity | exact Ha].
-  - unfold on_error. destruct (rtype =? 32).
-    + destruct (lookup request (s_subreqs s)) as [rq|]; [|exists ob; tauto].
-      destruct (complete_sub (s_gathers s) request rq (RErr (EAppError uri))) as [[gs o1] hs]. simpl.
-      now apply (dead_hold hs _ l ob).
-    + destruct (rtype =? 34); [|exists ob; tauto].
-      destruct (lookup request (s_unsubreqs s)); simpl; exists ob; tauto.
-  - unfold on_lose. destruct (s_joined s); [|exists ob; tauto].
-    destruct (reject_subs (s_gathers s) (s_subreqs s)) as [[gs o1] hs]. simpl. now apply (dead_hold hs _ l ob).
+  intros l now s r sid [ob [Ho Ha]]. unfold on_subscribed. destruct (lookup r (s_subreqs s)) as [rq|]; [|exists ob; tauto].
+  destruct (complete_sub (s_gathers s) r rq (RSub sid)) as [[gs o1] hs]. simpl.
+  apply (dead_hold _ _ l ob); [|exact Ha]. rewrite lookup_app, Ho. reflexivity.
+Qed.
+Lemma dead_unsubscribed : forall l s r, dead s l -> dead (fst (on_unsubscribed s r)) l.
+Proof.
+  intros l s r [ob [Ho Ha]]. unfold on_unsubscribed. destruct (lookup r (s_unsubreqs s)) as [rq|]; [|exists ob; tauto].
+  unfold dead. simpl. rewrite lookup_deactivate, Ho. eexists. split; [reflexivity|]. destruct (memN l _); [reflexivity | exact Ha].
+Qed.
+Lemma dead_error : forall l now s rt r u, dead s l -> dead (fst (fst (on_error now s rt r u))) l.
+Proof.
+  intros l now s rt r u [ob [Ho Ha]]. unfold on_error. destruct (rt =? 32).
+  - destruct (lookup r (s_subreqs s)) as [rq|]; [|exists ob; tauto].
+    destruct (complete_sub (s_gathers s) r rq (RErr (EAppError u))) as [[gs o1] hs]. simpl. now apply (dead_hold _ _ l ob).
+  - destruct (rt =? 34); [|exists ob; tauto]. destruct (lookup r (s_unsubreqs s)); simpl; exists ob; tauto.
+Qed.
+Lemma dead_lose : forall l s, dead s l -> dead (fst (on_lose s)) l.
+Proof.
+  intros l s [ob [Ho Ha]]. unfold on_lose. destruct (s_joined s); [|exists ob; tauto].
+  destruct (reject_subs (s_gathers s) (s_subreqs s)) as [[gs o1] hs]. simpl. now apply (dead_hold hs _ l ob).
 Qed.
 
-(* outputs of everything but EVENT contain no invocation *)
-Lemma complete_sub_no_invoke : forall gs rid rq r, invocations (snd (fst (complete_sub gs rid rq r))) = [].
-Proof.
-  intros. unfold complete_sub. destruct (sr_group rq) as [g|]; [|reflexivity].
-  destruct (lookup g gs) as [ms|]; [|reflexivity]. destruct (all_done (set_member rid r ms)); reflexivity.
-Qed.
+Ltac dead_stable l :=
+  first [ exact (dead_unsubscribe l) | exact (dead_subscribed l) | exact (dead_unsubscribed l) | exact (dead_error l)
+        | exact (dead_lose l)
+        | (intros; match goal with H : dead _ _ |- _ =>
+             let ob := fresh "ob" in let Ho := fresh "Ho" in let Ha := fresh "Ha" in
+             destruct H as [ob [Ho Ha]]; unfold dead; simpl;
+             first [ exists ob; tauto | now apply (dead_hold _ _ l ob) ] end) ].
 
-Lemma reject_subs_no_invoke : forall rqs gs, invocations (snd (fst (reject_subs gs rqs))) = [].
-Proof.
-  induction rqs as [|[rid rq] r IH]; intros gs; simpl; [reflexivity|].
-  pose proof (complete_sub_no_invoke gs rid rq (RErr EClosed)) as A.
-  destruct (complete_sub gs rid rq (RErr EClosed)) as [[gs1 o1] h1]. specialize (IH gs1).
-  destruct (reject_subs gs1 r) as [[gs2 o2] h2]. simpl in *. now rewrite invocations_app, A, IH.
-Qed.
+Lemma dead_step : forall fl s o l, dead s l -> dead (fst (step fl s o)) l.
+Proof. intros fl s o l. apply (step_preserves (fun s => dead s l)); dead_stable l. Qed.
 
-Lemma subscribe_all_no_invoke : forall ms s g, invocations (snd (subscribe_all s g ms)) = [].
+Lemma dead_not_invoked : forall fl s o l, dead s l -> ~ In l (invoked_labels (snd (step fl s o))).
 Proof.
-  induction ms as [|[h t] r IH]; intros s g; [reflexivity|]. rewrite subscribe_all_cons.
-  destruct (do_subscribe s h t (Some g)) as [s1 o1] eqn:E1. specialize (IH s1 g).
-  destruct (subscribe_all s1 g r) as [s2 o2]. simpl in *. rewrite invocations_app, IH.
-  unfold do_subscribe in E1. inversion E1. reflexivity.
-Qed.
-
-Lemma map_no_invoke : forall (A : Type) (f : A -> N) (r : result) (l : list A),
-  invocations (map (fun p => ODoneU (f p) r) l) = [].
-Proof. induction l; simpl; auto. Qed.
-
-Lemma step_core_no_invoke : forall fl s o, is_event o = false -> invocations (snd (step_core fl s o)) = [].
-Proof.
-  intros fl s o Hne. unfold step_core. destruct (is_message o && negb (s_joined s)); [reflexivity|].
-  destruct o; simpl; try discriminate.
-  - unfold api_subscribe. destruct (negb (s_transport s)); reflexivity.
-  - unfold api_subscribe_obj. destruct (negb (s_transport s)); [reflexivity|].
-    destruct ms as [|m r]; [reflexivity|].
-    pose proof (subscribe_all_no_invoke (m :: r) s (s_next s + 1)) as X.
-    destruct (subscribe_all s (s_next s + 1) (m :: r)) as [s1 o1]. exact X.
-  - apply api_unsubscribe_no_invoke.
-  - unfold on_subscribed. destruct (lookup request (s_subreqs s)) as [rq|]; [|reflexivity].
-    pose proof (complete_sub_no_invoke (s_gathers s) request rq (RSub subscription)) as X.
-    destruct (complete_sub (s_gathers s) request rq (RSub subscription)) as [[gs o1] hs]. exact X.
-  - unfold on_unsubscribed. destruct (lookup request (s_unsubreqs s)); reflexivity.
-  - unfold on_unsubscribed. destruct (lookup 0 (s_unsubreqs s)); reflexivity.
-  - unfold on_error. destruct (rtype =? 32).
-    + destruct (lookup request (s_subreqs s)) as [rq|]; [|reflexivity].
-      pose proof (complete_sub_no_invoke (s_gathers s) request rq (RErr (EAppError uri))) as X.
-      destruct (complete_sub (s_gathers s) request rq (RErr (EAppError uri))) as [[gs o1] hs]. exact X.
-    + destruct (rtype =? 34); [|reflexivity]. destruct (lookup request (s_unsubreqs s)); reflexivity.
-  - unfold on_lose. destruct (s_joined s); [|reflexivity].
-    pose proof (reject_subs_no_invoke (s_subreqs s) (s_gathers s)) as X.
-    destruct (reject_subs (s_gathers s) (s_subreqs s)) as [[gs o1] hs]. simpl in *.
-    rewrite invocations_app, X. apply (map_no_invoke _ (fun p => ur_obj (snd p))).
-Qed.
-
-Lemma on_event_invoked_dead : forall fl s ev l, dead s l -> ~ In l (invoked_labels (snd (on_event fl s ev))).
-Proof.
-  intros fl s ev l D Hin. unfold on_event in Hin. destruct (lookup (e_sub ev) (s_subs s)) as [lst|]; [|simpl in Hin; tauto].
-  pose proof (deliver_invoked (fun s => dead s l) (fun s0 t H => dead_unsubscribe s0 l t H) fl lst ev s l D) as DI.
-  pose proof (deliver_tx_no_later lst ev s) as T.
-  assert (K : In l (invoked_labels (now_outs (snd (deliver fl lst ev s)))) \/ In l (labels (later_of (snd (deliver fl lst ev s))))).
-  { destruct fl.
-    - destruct (deliver Tx lst ev s) as [s1 its]. simpl in *. now left.
-    - clear T. destruct (deliver Aio lst ev s) as [s1 its]. simpl in *.
-      pose proof (run_items_invocations ev its s1) as V. destruct (run_items ev s1 its) as [[[s2 g0] g1] g2].
-      destruct V as [A [B C]]. simpl in Hin. unfold invoked_labels in *. rewrite !invocations_app, A, B, C, app_nil_r, map_app, in_app_iff in Hin.
-      destruct Hin as [Hin|Hin]; [now left | right].
-      rewrite map_map in Hin. unfold labels. exact Hin. }
-  destruct (DI K) as [s' [D' A]]. apply dead_inactive in D'. congruence.
-Qed.
-
-Lemma dead_not_invoked : forall fl s o l, dead s l ->
-  ~ In l (invoked_labels (snd (step fl s o))).
-Proof.
-  intros fl s o l D Hin. destruct (is_event o) eqn:Ee.
-  - destruct o; try discriminate. rewrite step_snd_event in Hin. unfold step_core in Hin. simpl in Hin.
-    destruct (negb (s_joined s)); [simpl in Hin; tauto|]. now apply (on_event_invoked_dead fl s ev l D).
-  - unfold invoked_labels in Hin. rewrite step_snd, invocations_order, step_core_no_invoke in Hin by exact Ee. destruct Hin.
+  intros fl s o l D Hin.
+  destruct (step_called (fun s => dead s l)) with (fl := fl) (s := s) (o := o) (l := l) as [s' [D' A]];
+    try assumption; try (dead_stable l).
+  apply dead_inactive in D'. congruence.
 Qed.
 
 Lemma never_after_dead : forall fl ops s l, dead s l ->
@@ -1203,7 +1555,6 @@ Lemma never_after_dead : forall fl ops s l, dead s l ->
 Proof.
   induction ops as [|o r IH]; intros s l D; simpl; [tauto|].
   pose proof (dead_step fl s o l D) as D1. pose proof (dead_not_invoked fl s o l D) as N2.
-  rewrite <- (step_fst fl) in D1.
   destruct (step fl s o) as [s1 o1]. simpl in *. specialize (IH s1 l D1).
   destruct (run fl s1 r) as [s2 o2]. simpl in *. rewrite in_app_iff. tauto.
 Qed.
@@ -1224,34 +1575,98 @@ Proof.
   destruct (remove_label l lst); unfold dead; simpl; eexists; rewrite lookup_assoc_set_same; split; reflexivity.
 Qed.
 
-Lemma never_after_unsubscribe : forall fl ops1 l ops2,
+Definition rearr (l : N) (i2 : list item) : list item :=
+  filter (fun it => negb (is_done_u l it)) i2 ++ filter (is_done_u l) i2.
+
+Lemma unsub_inl_cases : forall fl s l rin,
+  api_unsubscribe_inl fl s l rin = (fst (api_unsubscribe s l), map INow (snd (api_unsubscribe s l)) ++ []) \/
+  api_unsubscribe_inl fl s l rin =
+    (fst (run_inline fl (fst (api_unsubscribe s l)) rin),
+     map INow (snd (api_unsubscribe s l)) ++ rearr l (snd (run_inline fl (fst (api_unsubscribe s l)) rin))).
+Proof.
+  intros fl s l rin. unfold api_unsubscribe_inl. destruct (api_unsubscribe s l) as [s1 o1]. simpl.
+  destruct o1 as [|[[]| | | | | |] [|]]; try (left; now rewrite app_nil_r).
+  right. destruct (run_inline fl s1 rin) as [s2 i2]. reflexivity.
+Qed.
+
+Lemma now_invs_rearr : forall l i2 x, In x (invocations (now_outs (rearr l i2))) -> In x (invocations (now_outs i2)).
+Proof.
+  intros l i2 x. unfold rearr. rewrite now_outs_app, invocations_app, in_app_iff.
+  induction i2 as [|[o|o|e ev|b0 ls] r IH]; simpl; [tauto| | | |]; try exact IH.
+  - destruct o; simpl; try (destruct (label =? l)); simpl; intuition.
+  - destruct o; simpl; intuition.
+Qed.
+
+Lemma later_invs_rearr : forall l i2 x, In x (later_invs (rearr l i2)) -> In x (later_invs i2).
+Proof.
+  intros l i2 x. unfold rearr. rewrite later_invs_app, in_app_iff.
+  induction i2 as [|[o|o|e ev|b0 ls] r IH]; simpl; [tauto| | | |]; try exact IH.
+  - destruct o; simpl; try (destruct (label =? l)); simpl; intuition.
+  - intuition.
+Qed.
+
+Lemma finalize_invoked : forall fl s its x, In x (invocations (snd (finalize fl s its))) ->
+  In x (invocations (now_outs its)) \/ In x (later_invs its).
+Proof.
+  intros fl s its x Hin. unfold finalize in Hin. destruct fl; simpl in Hin; [now left|].
+  pose proof (run_items_invoked its s x) as V. destruct (run_items s its) as [[[[s3 g0] g1] g2] h2]. simpl in Hin.
+  rewrite !invocations_app, !in_app_iff in Hin. now apply V.
+Qed.
+
+(* the rest of the very operation (messages delivered from inside its send()) and everything after *)
+Lemma never_after_unsubscribe : forall fl ops1 l rin ops2,
   let s1 := final fl ops1 in
   unsub_returns s1 l ->
-  let s2 := fst (step fl s1 (OpUnsubscribe l)) in
-  ~ In l (concat (map invoked_labels (snd (run fl s2 ops2)))).
+  ~ In l (concat (map invoked_labels (snd (run fl s1 (OpUnsubscribe l rin :: ops2))))).
 Proof.
-  intros fl ops1 l ops2 s1 Hr s2. subst s2. rewrite step_fst. apply never_after_dead.
-  unfold step_core. simpl. now apply unsub_returns_dead.
+  intros fl ops1 l rin ops2 s1 Hr. simpl.
+  pose proof (unsub_returns_dead s1 l Hr) as D0.
+  assert (K : dead (fst (step fl s1 (OpUnsubscribe l rin))) l /\
+              ~ In l (invoked_labels (snd (step fl s1 (OpUnsubscribe l rin))))).
+  { split.
+    - unfold step. simpl.
+      assert (DS : forall s2 its, dead s2 l -> dead (fst (finalize fl s2 its)) l).
+      { intros. apply (finalize_preserves (fun s => dead s l)); first [assumption | dead_stable l]. }
+      destruct (unsub_inl_cases fl s1 l rin) as [E|E]; rewrite E; apply DS; [exact D0|].
+      apply (run_inline_preserves (fun s => dead s l)); first [exact D0 | dead_stable l].
+    - intro Hin. unfold step in Hin. simpl in Hin. unfold invoked_labels in Hin. apply in_map_iff in Hin.
+      destruct Hin as [x [Hx Hin]].
+      assert (Hq : invocations (snd (api_unsubscribe s1 l)) = []) by apply api_unsubscribe_no_invoke.
+      destruct (unsub_inl_cases fl s1 l rin) as [E|E]; rewrite E in Hin; apply finalize_invoked in Hin;
+        rewrite now_outs_app, now_outs_map, invocations_app, Hq, later_invs_app, later_invs_map in Hin; simpl in Hin.
+      + destruct Hin as [[]|[]].
+      + assert (C : called l (snd (run_inline fl (fst (api_unsubscribe s1 l)) rin))).
+        { destruct Hin as [H|H].
+          - left. apply now_invs_rearr in H. unfold invoked_labels. apply in_map_iff. eauto.
+          - right. apply later_invs_rearr in H. rewrite <- later_invs_labels. apply in_map_iff. eauto. }
+        destruct (run_inline_called (fun s => dead s l)) with (fl := fl) (ms := rin) (s := fst (api_unsubscribe s1 l)) (l := l)
+          as [s3 [D3 A3]]; try assumption; try (dead_stable l).
+        apply dead_inactive in D3. congruence. }
+  destruct K as [K1 K2]. pose proof (never_after_dead fl ops2 _ l K1) as N.
+  destruct (step fl s1 (OpUnsubscribe l rin)) as [s2 o2]. simpl in *.
+  destruct (run fl s2 ops2) as [s3 o3]. simpl in *. rewrite in_app_iff. tauto.
 Qed.
 
 (* ------------------------------------------------------------------ C11: UNSUBSCRIBE exactly for the last handler *)
 Lemma order_single : forall fl o, order fl [o] = [o].
 Proof. intros [] o; [reflexivity|]. destruct o; reflexivity. Qed.
 
-Lemma step_unsubscribe : forall fl s l, step fl s (OpUnsubscribe l) = (fst (api_unsubscribe s l), order fl (snd (api_unsubscribe s l))).
-Proof. intros. unfold step, step_core. simpl. now destruct (api_unsubscribe s l). Qed.
-
-Lemma not_event_is_event : forall o, (forall ev, o <> OpEvent ev) -> is_event o = false.
-Proof. intros [] H; try reflexivity. exfalso. eapply H. reflexivity. Qed.
+(* network transport: nothing is delivered from inside send() *)
+Lemma step_unsubscribe : forall fl s l,
+  step fl s (OpUnsubscribe l []) = (fst (api_unsubscribe s l), order fl (snd (api_unsubscribe s l))).
+Proof.
+  intros. unfold step. simpl.
+  destruct (unsub_inl_cases fl s l []) as [E|E]; rewrite E; simpl; rewrite app_nil_r; apply finalize_now.
+Qed.
 
 Lemma unsubscribe_iff_last : forall fl s l o,
   lookup l (s_objs s) = Some o -> so_held o = true ->
-  let outs := snd (step fl s (OpUnsubscribe l)) in
+  let outs := snd (step fl s (OpUnsubscribe l [])) in
   ((forall e, ~ In (ORaised e) outs) ->
      (labels (attached s (so_id o)) = [l] /\
         filter sends_unsubscribe outs = [OSent (MUnsubscribe (s_next s + 1) (so_id o))])
      \/ (labels (attached s (so_id o)) <> [l] /\ filter sends_unsubscribe outs = []))
-  /\ ((exists e, In (ORaised e) outs) -> fst (step fl s (OpUnsubscribe l)) = s /\ filter sends_unsubscribe outs = []).
+  /\ ((exists e, In (ORaised e) outs) -> fst (step fl s (OpUnsubscribe l [])) = s /\ filter sends_unsubscribe outs = []).
 Proof.
   intros fl s l o Ho Hh outs. subst outs. rewrite step_unsubscribe. simpl.
   destruct (api_unsubscribe_cases s l) as [E|[[x E]|[o' [lst [Ho' [_ [_ [Hl [Hm [_ [[Er E]|[Er E]]]]]]]]]]]].
@@ -1275,7 +1690,7 @@ Qed.
 (* in a reachable state an active subscription held by the application can always be unsubscribed *)
 Lemma unsubscribe_succeeds : forall fl ops l o, let s := final fl ops in
   lookup l (s_objs s) = Some o -> so_held o = true -> so_active o = true -> s_transport s = true ->
-  forall e, ~ In (ORaised e) (snd (step fl s (OpUnsubscribe l))).
+  forall e, ~ In (ORaised e) (snd (step fl s (OpUnsubscribe l []))).
 Proof.
   intros fl ops l o s Ho Hh Ha Ht e Hin. pose proof (final_inv fl ops) as I. fold s in I.
   pose proof (inv_active_att s I l o Ho Ha) as Hatt.
@@ -1286,68 +1701,105 @@ Proof.
   destruct (remove_label l lst); simpl in Hin; destruct Hin as [H|[]]; discriminate.
 Qed.
 
-Lemma filter_su_app : forall a b, filter sends_unsubscribe (a ++ b) = filter sends_unsubscribe a ++ filter sends_unsubscribe b.
-Proof. intros. apply filter_app. Qed.
+(* operations that carry nothing delivered from inside send() *)
+Definition inline_free (o : op) : bool :=
+  match o with
+  | OpSubscribe _ _ _ rin => match rin with [] => true | _ => false end
+  | OpSubscribeObj ms _ => forallb (fun m => match snd m with [] => true | _ => false end) ms
+  | OpUnsubscribe _ rin => match rin with [] => true | _ => false end
+  | _ => true
+  end.
 
-Lemma complete_sub_no_su : forall gs rid rq r, filter sends_unsubscribe (snd (fst (complete_sub gs rid rq r))) = [].
+Lemma run_items_mem : forall its s x, later_of its = [] ->
+  let '(s2, g0, g1, g2, h2) := run_items s its in In x g0 \/ In x g1 \/ In x g2 -> In x (now_outs its).
 Proof.
-  intros. unfold complete_sub. destruct (sr_group rq) as [g|]; [|reflexivity].
-  destruct (lookup g gs) as [ms|]; [|reflexivity]. destruct (all_done (set_member rid r ms)); reflexivity.
+  induction its as [|[o|o|e ev|[] ls] r IH]; intros s x Hl; simpl in *; try discriminate.
+  - tauto.
+  - specialize (IH s x Hl). destruct (run_items s r) as [[[[s2 g0] g1] g2] h2].
+    destruct (is_immediate o); [|destruct (is_gather o)]; simpl; intuition.
+  - specialize (IH s x Hl). destruct (run_items s r) as [[[[s2 g0] g1] g2] h2]. simpl; intuition.
+  - specialize (IH s x Hl). destruct (run_items s r) as [[[[s2 g0] g1] g2] h2]. exact IH.
+  - apply IH. exact Hl.
 Qed.
 
-Lemma reject_subs_no_su : forall rqs gs, filter sends_unsubscribe (snd (fst (reject_subs gs rqs))) = [].
+Lemma finalize_mem : forall fl s its x, later_of its = [] -> In x (snd (finalize fl s its)) -> In x (now_outs its).
 Proof.
-  induction rqs as [|[rid rq] r IH]; intros gs; simpl; [reflexivity|].
-  pose proof (complete_sub_no_su gs rid rq (RErr EClosed)) as A.
-  destruct (complete_sub gs rid rq (RErr EClosed)) as [[gs1 o1] h1]. specialize (IH gs1).
-  destruct (reject_subs gs1 r) as [[gs2 o2] h2]. simpl in *. now rewrite filter_su_app, A, IH.
+  intros fl s its x Hl Hin. unfold finalize in Hin. destruct fl; [exact Hin|].
+  pose proof (run_items_mem its s x Hl) as V. destruct (run_items s its) as [[[[s2 g0] g1] g2] h2].
+  simpl in Hin. rewrite !in_app_iff in Hin. now apply V.
 Qed.
 
-Lemma subscribe_all_no_su : forall ms s g, filter sends_unsubscribe (snd (subscribe_all s g ms)) = [].
+Definition calm (its : list item) : Prop := later_of its = [] /\ forallb quiet (now_outs its) = true.
+
+Lemma calm_app : forall a b, calm a -> calm b -> calm (a ++ b).
+Proof. intros a b [A1 A2] [B1 B2]. split; [now rewrite later_of_app, A1, B1 | now rewrite now_outs_app, forallb_app, A2, B2]. Qed.
+Lemma calm_now : forall os extra, forallb quiet os = true -> later_of extra = [] -> now_outs extra = [] -> calm (map INow os ++ extra).
 Proof.
-  induction ms as [|[h t] r IH]; intros s g; [reflexivity|]. rewrite subscribe_all_cons.
-  destruct (do_subscribe s h t (Some g)) as [s1 o1] eqn:E1. specialize (IH s1 g).
-  destruct (subscribe_all s1 g r) as [s2 o2]. simpl in *. rewrite filter_su_app, IH.
-  unfold do_subscribe in E1. inversion E1. reflexivity.
+  intros os extra Q H1 H2. split; [now rewrite later_of_app, later_of_map, H1 | now rewrite now_outs_app, now_outs_map, H2, app_nil_r].
 Qed.
 
-Lemma map_no_su : forall (A : Type) (f : A -> N) (r : result) (l : list A),
-  filter sends_unsubscribe (map (fun p => ODoneU (f p) r) l) = [].
-Proof. induction l; simpl; auto. Qed.
+Lemma return_future_calm : forall fl s g, calm (snd (return_future fl s g)).
+Proof.
+  intros fl s g. unfold return_future. pose proof (seal_quiet (s_gathers s) g) as Q.
+  destruct (seal (s_gathers s) g) as [[gs o] hs]. simpl in Q. destruct fl; simpl.
+  - rewrite <- (app_nil_r (map INow o)). now apply calm_now.
+  - split.
+    + rewrite later_of_app. simpl. rewrite app_nil_r. clear. induction o; simpl; auto.
+    + rewrite now_outs_app, now_outs_soon. simpl. now rewrite app_nil_r.
+Qed.
 
-Lemma sends_unsubscribe_imm : forall o, sends_unsubscribe o = true -> is_immediate o = true.
-Proof. intros [] H; simpl in *; try discriminate; reflexivity. Qed.
+Lemma subscribe_all_calm : forall fl ms s g call,
+  forallb (fun m : method => match snd m with [] => true | _ => false end) ms = true ->
+  calm (snd (subscribe_all fl s g call ms)).
+Proof.
+  intros fl. induction ms as [|[[[sp own] t] rin] r IH]; intros s g call H; simpl in *; [split; reflexivity|].
+  apply andb_true_iff in H. destruct H as [H1 H2]. destruct rin; [|discriminate].
+  unfold do_subscribe. simpl. specialize (IH (record_sub s (mk_handler true (method_opts call own) sp) t g) g call H2).
+  destruct (subscribe_all fl (record_sub s (mk_handler true (method_opts call own) sp) t g) g call r) as [s2 i2]. simpl in *.
+  destruct IH as [A B]. split; simpl; [exact A | exact B].
+Qed.
+
+Lemma on_message_calm : forall fl s m, (forall ev, m <> MsgEvent ev) -> calm (snd (on_message fl s m)).
+Proof.
+  intros fl s m Hne. unfold on_message. destruct (negb (s_joined s)); [split; reflexivity|]. destruct m.
+  - pose proof (on_subscribed_quiet (is_tx fl) s request subscription) as Q.
+    destruct (on_subscribed (is_tx fl) s request subscription) as [[s1 o] hs]. apply calm_now; [exact Q | |]; apply later_of_hold_items.
+  - pose proof (on_unsubscribed_quiet s request) as Q. destruct (on_unsubscribed s request) as [s1 o]. simpl.
+    rewrite <- (app_nil_r (map INow o)). now apply calm_now.
+  - pose proof (on_unsubscribed_quiet s 0) as Q. destruct (on_unsubscribed s 0) as [s1 o]. simpl.
+    rewrite <- (app_nil_r (map INow o)). now apply calm_now.
+  - pose proof (on_error_quiet (is_tx fl) s rtype request uri) as Q.
+    destruct (on_error (is_tx fl) s rtype request uri) as [[s1 o] hs]. apply calm_now; [exact Q | |]; apply later_of_hold_items.
+  - exfalso. eapply Hne. reflexivity.
+Qed.
 
 (* no operation other than an unsubscribe() call (by the application, or by a handler during a dispatch) sends it *)
 Lemma unsubscribe_only_source : forall fl s o,
-  (forall l, o <> OpUnsubscribe l) -> (forall ev, o <> OpEvent ev) ->
+  (forall l rin, o <> OpUnsubscribe l rin) -> (forall ev, o <> OpEvent ev) -> inline_free o = true ->
   filter sends_unsubscribe (snd (step fl s o)) = [].
 Proof.
-  intros fl s o H1 H2. rewrite step_snd by now apply not_event_is_event.
-  rewrite filter_order_imm by apply sends_unsubscribe_imm.
-  unfold step_core. destruct (is_message o && negb (s_joined s)); [reflexivity|].
-  destruct o; simpl.
-  - unfold api_subscribe. destruct (negb (s_transport s)); reflexivity.
-  - unfold api_subscribe_obj. destruct (negb (s_transport s)); [reflexivity|].
-    destruct ms as [|m r]; [reflexivity|].
-    pose proof (subscribe_all_no_su (m :: r) s (s_next s + 1)) as X.
-    destruct (subscribe_all s (s_next s + 1) (m :: r)) as [s1 o1]. exact X.
-  - exfalso. eapply H1. reflexivity.
-  - unfold on_subscribed. destruct (lookup request (s_subreqs s)) as [rq|]; [|reflexivity].
-    pose proof (complete_sub_no_su (s_gathers s) request rq (RSub subscription)) as X.
-    destruct (complete_sub (s_gathers s) request rq (RSub subscription)) as [[gs o1] hs]. exact X.
-  - unfold on_unsubscribed. destruct (lookup request (s_unsubreqs s)); reflexivity.
-  - unfold on_unsubscribed. destruct (lookup 0 (s_unsubreqs s)); reflexivity.
-  - unfold on_error. destruct (rtype =? 32).
-    + destruct (lookup request (s_subreqs s)) as [rq|]; [|reflexivity].
-      pose proof (complete_sub_no_su (s_gathers s) request rq (RErr (EAppError uri))) as X.
-      destruct (complete_sub (s_gathers s) request rq (RErr (EAppError uri))) as [[gs o1] hs]. exact X.
-    + destruct (rtype =? 34); [|reflexivity]. destruct (lookup request (s_unsubreqs s)); reflexivity.
-  - exfalso. eapply H2. reflexivity.
-  - unfold on_lose. destruct (s_joined s); [|reflexivity].
-    pose proof (reject_subs_no_su (s_subreqs s) (s_gathers s)) as X.
-    destruct (reject_subs (s_gathers s) (s_subreqs s)) as [[gs o1] hs]. simpl in *.
-    rewrite filter_su_app, X. apply (map_no_su _ (fun p => ur_obj (snd p))).
+  intros fl s o H1 H2 Hf.
+  assert (C : calm (snd (step_items fl s o))).
+  { destruct o; simpl in *; try (apply on_message_calm; intros ev X; discriminate).
+    - destruct rin; [|discriminate]. unfold api_subscribe. destruct (negb (opts_ok o)); [split; reflexivity|].
+      destruct (negb (s_transport s)); [split; reflexivity|]. unfold do_subscribe. simpl.
+      match goal with |- context [return_future fl ?s1 ?g] =>
+        pose proof (return_future_calm fl s1 g) as R; destruct (return_future fl s1 g) as [s2 i2] end.
+      simpl in *. destruct R as [A B]. split; simpl; [exact A | exact B].
+    - unfold api_subscribe_obj. destruct (negb (methods_ok call ms)); [split; reflexivity|].
+      destruct (negb (s_transport s)); [split; reflexivity|].
+      match goal with |- context [subscribe_all fl ?s0 ?g call ms] =>
+        pose proof (subscribe_all_calm fl ms s0 g call Hf) as S; destruct (subscribe_all fl s0 g call ms) as [s1 i1] end.
+      match goal with |- context [return_future fl ?s1 ?g] =>
+        pose proof (return_future_calm fl s1 g) as R; destruct (return_future fl s1 g) as [s2 i2] end.
+      simpl in *. now apply calm_app.
+    - exfalso. eapply H1. reflexivity.
+    - exfalso. eapply H2. reflexivity.
+    - pose proof (on_lose_quiet s) as Q. destruct (on_lose s) as [s1 o1]. simpl in *.
+      rewrite <- (app_nil_r (map INow o1)). now apply calm_now. }
+  unfold step. destruct (step_items fl s o) as [s1 its]. simpl in C. destruct C as [C1 C2].
+  apply filter_none. intros x Hx. apply (finalize_mem fl s1 its x C1) in Hx.
+  rewrite forallb_forall in C2. specialize (C2 x Hx). destruct x as [[]| | | | | |]; simpl in *; try discriminate; reflexivity.
 Qed.
 
 (* ------------------------------------------------------------------ C11: racing / unknown events *)
@@ -1356,15 +1808,15 @@ Lemma event_table_criterion : forall fl s ev, s_joined s = true ->
   (lookup (e_sub ev) (s_subs s) = None -> step fl s (OpEvent ev) = (s, [ORaised EProtocolError])) /\
   (lookup (e_sub ev) (s_subs s) = Some [] -> step fl s (OpEvent ev) = (s, [])).
 Proof.
-  intros fl s ev Hj. unfold step. rewrite step_core_event by exact Hj. unfold on_event. split; intros H; rewrite H; simpl.
-  - reflexivity.
-  - destruct fl; reflexivity.
+  intros fl s ev Hj. rewrite step_event by exact Hj. unfold on_event. split; intros H; rewrite H; simpl.
+  - destruct fl; simpl; [reflexivity|]. now rewrite hold_nil, set_objs_id.
+  - destruct fl; simpl; [reflexivity|]. now rewrite hold_nil, set_objs_id.
 Qed.
 
 Lemma race_dropped : forall fl ops l o ev, let s := final fl ops in
   lookup l (s_objs s) = Some o -> so_held o = true -> so_active o = true -> s_transport s = true ->
   labels (attached s (so_id o)) = [l] -> e_sub ev = so_id o ->
-  let s' := fst (step fl s (OpUnsubscribe l)) in
+  let s' := fst (step fl s (OpUnsubscribe l [])) in
   In (so_id o) (s_ever s') /\ step fl s' (OpEvent ev) = (s', []).
 Proof.
   intros fl ops l o ev s Ho Hh Ha Ht Hlab Hev s'. pose proof (final_inv fl ops) as I. fold s in I.
@@ -1386,37 +1838,28 @@ Proof.
   intros fl ops ev s Hn. pose proof (final_inv fl ops) as I. fold s in I.
   destruct (s_joined s) eqn:Hj.
   - apply event_table_criterion; [exact Hj|]. apply lookup_None_keys. intro X. apply Hn. now apply (inv_ever s I).
-  - unfold step, step_core. simpl. rewrite Hj. reflexivity.
+  - unfold step. simpl. unfold on_message. rewrite Hj. simpl.
+    destruct fl; simpl; [reflexivity|]. now rewrite hold_nil, set_objs_id.
 Qed.
 
+(* ------------------------------------------------------------------ a call that creates no Task only hands objects over afterwards *)
+Lemma run_items_nolater : forall its s, later_of its = [] -> exists objs', ri_state (run_items s its) = set_objs s objs'.
+Proof.
+  induction its as [|[o|o|e ev|[] ls] r IH]; intros s Hl; simpl in *; try discriminate.
+  - exists (s_objs s). now rewrite set_objs_id.
+  - destruct (IH s Hl) as [ob E]. destruct (run_items s r) as [[[[s2 g0] g1] g2] h2]. exists ob.
+    destruct (is_immediate o); [exact E|]. destruct (is_gather o); exact E.
+  - destruct (IH s Hl) as [ob E]. destruct (run_items s r) as [[[[s2 g0] g1] g2] h2]. exists ob. exact E.
+  - destruct (IH s Hl) as [ob E]. destruct (run_items s r) as [[[[s2 g0] g1] g2] h2]. exists ob. exact E.
+  - destruct (IH (set_objs s (hold ls (s_objs s))) Hl) as [ob E]. exists ob. rewrite E. reflexivity.
+Qed.
 
-(* ------------------------------------------------------------------ witnesses for the non-vacuity examples / regressions *)
-Definition w_any (det : option key) (b : behaviour) : handler :=
-  {| h_obj := false; h_details := det; h_sig := SigAny; h_check := false; h_ann := None; h_beh := b |}.
-Definition w_strict : handler :=
-  {| h_obj := false; h_details := None; h_sig := SigOnly [0]; h_check := false; h_ann := None; h_beh := BReturn |}.
-(* check_types handlers: def h(level: int, *values, **fields), def h(kind: str, *values), and a plain one that
-   unsubscribes the first *)
-Definition w_checked (ann : anntype) (vk : bool) : handler :=
-  {| h_obj := false; h_details := None; h_sig := {| sg_fixed := 1; sg_varargs := true; sg_kwonly := []; sg_varkw := vk |};
-     h_check := true; h_ann := Some ann; h_beh := BReturn |}.
-Definition w_checked_ops : list op :=
-  [OpSubscribe (w_checked TInt true) 1; OpSubscribe (w_any None (BUnsub [1])) 1; OpSubscribe (w_checked TStr false) 1;
-   OpSubscribed 1 71; OpSubscribed 2 71; OpSubscribed 3 71].
-Definition w_event (kw : kwargs) : event :=
-  {| e_sub := 71; e_pub := 900; e_args := [1%Z]; e_kwargs := kw; e_publisher := None; e_topic := None; e_retained := None |}.
-(* DESIGN F-C11-1: three handlers on id 71, the first with details_arg "details" (key 3), the second a function
-   accepting only keyword "a" (key 0); to be hit by EVENT args [1], kwargs {a: 1} *)
-Definition w_shared_ops : list op :=
-  [OpSubscribe (w_any (Some 3) BReturn) 1; OpSubscribe w_strict 1; OpSubscribe (w_any None BReturn) 1;
-   OpSubscribed 1 71; OpSubscribed 2 71; OpSubscribed 3 71].
-(* the first handler unsubscribes itself, the second unsubscribes the third, while being called *)
-Definition w_reentrant_ops : list op :=
-  [OpSubscribe (w_any None (BUnsub [1])) 1; OpSubscribe (w_any None (BUnsub [3])) 1; OpSubscribe (w_any None BReturn) 1;
-   OpSubscribe (w_any None BReturn) 1; OpSubscribed 1 71; OpSubscribed 2 71; OpSubscribed 3 71; OpSubscribed 4 71].
-Definition w_three_ops : list op :=      (* three handlers on id 71: returns / raises / strict signature *)
-  [OpSubscribe (w_any None BReturn) 1; OpSubscribe (w_any (Some 3) (BRaise 7)) 1; OpSubscribe w_strict 1;
-   OpSubscribed 1 71; OpSubscribed 2 71; OpSubscribed 3 71].
+Lemma finalize_nolater : forall fl s its, later_of its = [] -> exists objs', fst (finalize fl s its) = set_objs s objs'.
+Proof.
+  intros fl s its Hl. unfold finalize. destruct fl; simpl; [exists (s_objs s); now rewrite set_objs_id|].
+  destruct (run_items_nolater its s Hl) as [ob E]. destruct (run_items s its) as [[[[s2 g0] g1] g2] h2].
+  unfold ri_state in E. simpl in *. rewrite E. eexists. reflexivity.
+Qed.
 
 (* ------------------------------------------------------------------ C11: how the handler list evolves *)
 (* SUBSCRIBED for a pending request appends that request's handler at the END of the list of the id it names
@@ -1426,18 +1869,21 @@ Lemma subscribed_appends : forall fl s req sid rq, s_joined s = true -> lookup r
   attached s' sid = attached s sid ++ [{| se_label := req; se_topic := sr_topic rq; se_handler := sr_handler rq |}] /\
   (forall sid', sid' <> sid -> attached s' sid' = attached s sid').
 Proof.
-  intros fl s req sid rq Hj Hr s'. subst s'. rewrite step_fst. unfold step_core. simpl. rewrite Hj. simpl.
+  intros fl s req sid rq Hj Hr s'. subst s'. unfold step. simpl. unfold on_message. rewrite Hj. simpl.
   unfold on_subscribed. rewrite Hr. destruct (complete_sub (s_gathers s) req rq (RSub sid)) as [[gs o] hs]. simpl.
-  unfold attached. simpl. split.
+  match goal with |- context [finalize fl ?s1 ?its] =>
+    destruct (finalize_nolater fl s1 its) as [ob E] end.
+  { rewrite later_of_app, later_of_map. apply later_of_hold_items. }
+  rewrite E. unfold attached. simpl. split.
   - rewrite lookup_append_sub, N.eqb_refl. reflexivity.
-  - intros sid' Hne. rewrite lookup_append_sub. destruct (sid' =? sid) eqn:E; [apply N.eqb_eq in E; congruence | reflexivity].
+  - intros sid' Hne. rewrite lookup_append_sub. destruct (sid' =? sid) eqn:E0; [apply N.eqb_eq in E0; congruence | reflexivity].
 Qed.
 
 (* an unsubscribe() that returns removes exactly that handler, keeps the order of the others, touches no other list,
    and marks the object inactive *)
 Lemma unsubscribe_removes : forall fl s l o, lookup l (s_objs s) = Some o -> so_held o = true ->
-  (forall e, ~ In (ORaised e) (snd (step fl s (OpUnsubscribe l)))) ->
-  let s' := fst (step fl s (OpUnsubscribe l)) in
+  (forall e, ~ In (ORaised e) (snd (step fl s (OpUnsubscribe l [])))) ->
+  let s' := fst (step fl s (OpUnsubscribe l [])) in
   attached s' (so_id o) = remove_label l (attached s (so_id o)) /\
   (forall sid', sid' <> so_id o -> attached s' sid' = attached s sid') /\
   is_active s' l = false.
@@ -1459,6 +1905,186 @@ Proof.
     intros sid' Hne. now rewrite lookup_assoc_set_other.
 Qed.
 
+(* ------------------------------------------------------------------ C11: the REQUESTED event details *)
+(* for every argument combination SubscribeOptions accepts, what it stores is what the application asked for *)
+Lemma options_normalisation : forall o, opts_valid o = true -> norm_details o = requested_details (Some o).
+Proof. intros [[[]|] [k|] m g]; simpl; intros H; try discriminate; reflexivity. Qed.
+
+Lemma handler_details_requested : forall obj o sp, opts_ok o = true ->
+  h_details (mk_handler obj o sp) = requested_details o.
+Proof. intros obj [o|] sp H; simpl; [now apply options_normalisation | reflexivity]. Qed.
+
+(* subscribe(fn, topic, options): the request that is recorded (and, by C11_subscribed_appends, the handler that is
+   attached when SUBSCRIBED arrives) carries exactly the requested details; the options on the wire are the given ones *)
+Lemma subscribe_records_request : forall fl s sp o t, opts_ok o = true -> s_transport s = true ->
+  let rid := s_next s + 1 in
+  let s' := fst (step fl s (OpSubscribe sp o t [])) in
+  exists h, s_subreqs s' = s_subreqs s ++ [(rid, {| sr_topic := t; sr_handler := h; sr_group := rid |})] /\
+            h_details h = requested_details o /\ h_sig h = hs_sig sp /\ h_check h = hs_check sp /\ h_beh h = hs_beh sp /\
+            In (OSent (MSubscribe rid t (wire_match o) (wire_retained o))) (snd (step fl s (OpSubscribe sp o t []))).
+Proof.
+  intros fl s sp o t Hv Ht rid s'. subst s' rid. exists (mk_handler false o sp).
+  unfold step. simpl. unfold api_subscribe. rewrite Hv, Ht. simpl. unfold do_subscribe. simpl.
+  match goal with |- context [return_future fl ?s1 ?g] =>
+    pose proof (return_future_calm fl s1 g) as R;
+    assert (F : s_subreqs (fst (return_future fl s1 g)) = s_subreqs s1)
+      by (unfold return_future; destruct (seal (s_gathers s1) g) as [[gs o1] hs]; destruct fl; reflexivity);
+    destruct (return_future fl s1 g) as [s2 i2] end.
+  simpl in *. destruct R as [R1 R2].
+  match goal with |- context [finalize fl s2 ?its] =>
+    destruct (finalize_nolater fl s2 its) as [ob E]; [simpl; exact R1|];
+    assert (M : In (OSent (MSubscribe (s_next s + 1) t (wire_match o) (wire_retained o))) (snd (finalize fl s2 its))) end.
+  { unfold finalize. destruct fl; simpl; [now left|].
+    destruct (run_items s2 i2) as [[[[s3 g0] g1] g2] h2]. simpl. now left. }
+  rewrite E. simpl. rewrite F. split; [reflexivity|].
+  split; [now apply (handler_details_requested false o sp)|]. repeat (split; [reflexivity|]). exact M.
+Qed.
+
+(* ------------------------------------------------------------------ C11: replies delivered from inside transport.send() *)
+Definition donelike (o : out) : bool := match o with ODone _ _ | ODoneG _ _ | ODoneU _ _ => true | _ => false end.
+
+Lemma settle_donelike : forall gs g single sealed ms, forallb donelike (snd (fst (settle gs g single sealed ms))) = true.
+Proof.
+  intros. unfold settle. destruct (if sealed then all_done ms else None) as [rs|]; [|reflexivity]. simpl.
+  unfold done_out. destruct single; [|reflexivity]. destruct rs as [|r [|]]; reflexivity.
+Qed.
+
+(* the request is on record when SUBSCRIBE goes out: a SUBSCRIBED the transport delivers before send() returns is
+   accepted like any other - the handler is attached, the request is no longer pending, nothing is raised *)
+Lemma subscribed_inside_send : forall fl ops sp o t sid, let s := final fl ops in
+  opts_ok o = true -> s_transport s = true ->
+  let rid := s_next s + 1 in
+  let r := step fl s (OpSubscribe sp o t [MsgSubscribed rid sid]) in
+  attached (fst r) sid = attached s sid ++ [{| se_label := rid; se_topic := t; se_handler := mk_handler false o sp |}] /\
+  lookup rid (s_subreqs (fst r)) = None /\
+  (forall e, ~ In (ORaised e) (snd r)).
+Proof.
+  intros fl ops sp o t sid s Hv Ht rid r. subst r rid. pose proof (final_inv fl ops) as I. fold s in I.
+  assert (Hj : s_joined s = true) by (rewrite (inv_joined s I); exact Ht).
+  assert (Hfresh : lookup (s_next s + 1) (s_subreqs s) = None).
+  { apply lookup_None_keys. intro X. apply (inv_req_le s I) in X. lia. }
+  unfold step. simpl. unfold api_subscribe. rewrite Hv, Ht. simpl. unfold do_subscribe. simpl.
+  unfold on_message. simpl. rewrite Hj. simpl. unfold on_subscribed. simpl.
+  rewrite lookup_app, Hfresh. simpl. rewrite N.eqb_refl.
+  match goal with |- context [complete_sub ?gs ?rid ?rq ?res] =>
+    pose proof (complete_sub_quiet gs rid rq res) as Q0;
+    assert (Q : forallb donelike (snd (fst (complete_sub gs rid rq res))) = true)
+      by (unfold complete_sub; destruct (lookup (sr_group rq) gs); [apply settle_donelike | reflexivity]);
+    destruct (complete_sub gs rid rq res) as [[gs1 o1] hs1] end.
+  simpl in *.
+  match goal with |- context [return_future fl ?s1 ?g] =>
+    pose proof (return_future_calm fl s1 g) as R;
+    assert (F : s_subreqs (fst (return_future fl s1 g)) = s_subreqs s1 /\ s_subs (fst (return_future fl s1 g)) = s_subs s1)
+      by (unfold return_future; destruct (seal (s_gathers s1) g) as [[gs o2] hs]; destruct fl; split; reflexivity);
+    assert (D : forallb donelike (now_outs (snd (return_future fl s1 g))) = true)
+      by (unfold return_future, seal; destruct (lookup g (s_gathers s1)) as [f|];
+          [pose proof (settle_donelike (s_gathers s1) g (f_single f) true (f_members f)) as X;
+           destruct (settle (s_gathers s1) g (f_single f) true (f_members f)) as [[gs o2] hs]; simpl in X;
+           destruct fl; simpl; [now rewrite now_outs_map | rewrite now_outs_app, now_outs_soon; simpl; now rewrite app_nil_r]
+          | destruct fl; reflexivity]);
+    destruct (return_future fl s1 g) as [s2 i2] end.
+  simpl in *. destruct R as [R1 R2]. destruct F as [F1 F2].
+  match goal with |- context [finalize fl s2 ?its] =>
+    assert (L : later_of its = []) by
+      (simpl; rewrite !later_of_app, later_of_map, R1; destruct fl; reflexivity);
+    destruct (finalize_nolater fl s2 its L) as [ob E];
+    pose proof (fun x => finalize_mem fl s2 its x L) as M end.
+  rewrite E. unfold attached. simpl. rewrite F1, F2. simpl. split; [|split].
+  - rewrite lookup_append_sub, N.eqb_refl. reflexivity.
+  - rewrite <- (app_nil_r (s_subreqs s)) at 1.
+    assert (Z : forall (l : list (N * subreq)) k v, lookup k l = None -> lookup k (remove_key k (l ++ [(k, v)])) = None).
+    { clear. induction l as [|[k0 v0] r IH]; intros k v H; simpl in *; [now rewrite N.eqb_refl|].
+      destruct (k0 =? k) eqn:E; [discriminate|]. simpl. rewrite E. now apply IH. }
+    rewrite app_nil_r. now apply Z.
+  - intros e He. apply M in He. simpl in He.
+    rewrite !now_outs_app, now_outs_map in He.
+    assert (X : forall x, In x o1 -> donelike x = true) by (apply forallb_forall; exact Q).
+    assert (Y : forall x, In x (now_outs i2) -> donelike x = true) by (apply forallb_forall; exact D).
+    assert (Z : now_outs (hold_items fl o1 hs1) = []) by apply later_of_hold_items.
+    rewrite Z, app_nil_r in He. destruct He as [He|He]; [discriminate|].
+    rewrite !in_app_iff in He. destruct He as [[He|[]]|He]; [apply X in He | apply Y in He]; discriminate.
+Qed.
+
+(* likewise for the UNSUBSCRIBE of the last handler: an UNSUBSCRIBED delivered before send() returns is accepted, the id
+   leaves the table, the unsubscribe future completes with 0 *)
+Lemma unsubscribed_inside_send : forall fl ops l o, let s := final fl ops in
+  lookup l (s_objs s) = Some o -> so_held o = true -> so_active o = true -> s_transport s = true ->
+  labels (attached s (so_id o)) = [l] ->
+  let r := step fl s (OpUnsubscribe l [MsgUnsubscribed (s_next s + 1)]) in
+  lookup (so_id o) (s_subs (fst r)) = None /\ In (ODoneU l (RNum 0)) (snd r) /\ (forall e, ~ In (ORaised e) (snd r)).
+Proof.
+  intros fl ops l o s Ho Hh Ha Ht Hlab r. subst r. pose proof (final_inv fl ops) as I. fold s in I.
+  assert (Hj : s_joined s = true) by (rewrite (inv_joined s I); exact Ht).
+  unfold attached in Hlab. destruct (lookup (so_id o) (s_subs s)) as [lst|] eqn:Hl; [|discriminate].
+  assert (Hm : has_label l lst = true) by (apply has_label_In; rewrite Hlab; now left).
+  assert (Er : remove_label l lst = []) by (apply remove_label_nil; [rewrite Hlab; now left | exact Hlab]).
+  assert (Hfresh : forall v, lookup (s_next s + 1) (s_unsubreqs s ++ [(s_next s + 1, v)]) = Some v \/
+                             exists v', lookup (s_next s + 1) (s_unsubreqs s) = Some v').
+  { intro v. rewrite lookup_app. destruct (lookup (s_next s + 1) (s_unsubreqs s)); [right; eauto | left]. simpl. now rewrite N.eqb_refl. }
+  unfold step. simpl. unfold api_unsubscribe_inl, api_unsubscribe. rewrite Ho, Hh, Ha, Hl, Hm, Ht, Er. simpl.
+  unfold on_message. simpl. rewrite Hj. simpl. unfold on_unsubscribed. simpl.
+  destruct (lookup (s_next s + 1) (s_unsubreqs s ++ [(s_next s + 1, {| ur_sub := so_id o; ur_obj := l |})])) as [rq|] eqn:Eq.
+  2:{ exfalso. destruct (Hfresh {| ur_sub := so_id o; ur_obj := l |}) as [X|[v' X]]; [congruence|].
+      rewrite lookup_app, X in Eq. discriminate. }
+  (* request ids of UNSUBSCRIBE are not part of the invariant: whichever entry is found names this subscription only if it is ours *)
+  simpl.
+  assert (Hrq : rq = {| ur_sub := so_id o; ur_obj := l |} \/ lookup (s_next s + 1) (s_unsubreqs s) = Some rq).
+  { rewrite lookup_app in Eq. destruct (lookup (s_next s + 1) (s_unsubreqs s)) as [v|]; [right; congruence | left].
+    simpl in Eq. rewrite N.eqb_refl in Eq. congruence. }
+  destruct Hrq as [->|Hold].
+  - simpl. rewrite N.eqb_refl. simpl.
+    match goal with |- context [finalize fl ?s2 ?its] =>
+      assert (L : later_of its = []) by reflexivity;
+      destruct (finalize_nolater fl s2 its L) as [ob E];
+      pose proof (fun x => finalize_mem fl s2 its x L) as M;
+      assert (Min : In (ODoneU l (RNum 0)) (snd (finalize fl s2 its))) end.
+    { unfold finalize. destruct fl; simpl; right; now left. }
+    rewrite E. simpl. split; [|split; [exact Min|]].
+    + apply lookup_remove_key_same. rewrite keys_assoc_set_present by (eapply lookup_Some_keys; eauto). apply (inv_subs_nodup s I).
+    + intros e He. apply M in He. simpl in He. destruct He as [He|[He|[]]]; discriminate.
+  - (* an UNSUBSCRIBE request with a future id cannot be pending *)
+    exfalso. apply lookup_Some_keys in Hold. apply (inv_ureq_le s I) in Hold. lia.
+Qed.
+
+(* ------------------------------------------------------------------ witnesses for the non-vacuity examples / regressions *)
+Definition w_sp (b : behaviour) : hspec := {| hs_sig := SigAny; hs_check := false; hs_ann := None; hs_beh := b |}.
+Definition w_strict_sp : hspec := {| hs_sig := SigOnly [0]; hs_check := false; hs_ann := None; hs_beh := BReturn |}.
+Definition w_opts (d : option bool) (da : option key) : option subopts :=
+  Some {| o_details := d; o_details_arg := da; o_match := None; o_get_retained := None |}.
+(* subscribe(fn, topic, options) over a network transport *)
+Definition w_sub (b : behaviour) (o : option subopts) : op := OpSubscribe (w_sp b) o 1 [].
+(* check_types handlers: def h(level: int, *values, **fields), def h(kind: str, *values) *)
+Definition w_checked (ann : anntype) (vk : bool) : hspec :=
+  {| hs_sig := {| sg_fixed := 1; sg_varargs := true; sg_kwonly := []; sg_varkw := vk |};
+     hs_check := true; hs_ann := Some ann; hs_beh := BReturn |}.
+Definition w_checked_ops : list op :=
+  [OpSubscribe (w_checked TInt true) None 1 []; w_sub (BUnsub [1]) None; OpSubscribe (w_checked TStr false) None 1 [];
+   OpSubscribed 1 71; OpSubscribed 2 71; OpSubscribed 3 71].
+Definition w_event (kw : kwargs) : event :=
+  {| e_sub := 71; e_pub := 900; e_args := [1%Z]; e_kwargs := kw; e_publisher := None; e_topic := None; e_retained := None |}.
+(* DESIGN F-C11-1: three handlers on id 71, the first with details_arg "details" (key 3), the second a function
+   accepting only keyword "a" (key 0); to be hit by EVENT args [1], kwargs {a: 1} *)
+Definition w_shared_ops : list op :=
+  [w_sub BReturn (w_opts None (Some 3)); OpSubscribe w_strict_sp None 1 []; w_sub BReturn None;
+   OpSubscribed 1 71; OpSubscribed 2 71; OpSubscribed 3 71].
+(* the first handler unsubscribes itself, the second unsubscribes the third, while being called *)
+Definition w_reentrant_ops : list op :=
+  [w_sub (BUnsub [1]) None; w_sub (BUnsub [3]) None; w_sub BReturn None; w_sub BReturn None;
+   OpSubscribed 1 71; OpSubscribed 2 71; OpSubscribed 3 71; OpSubscribed 4 71].
+Definition w_three_ops : list op :=      (* three handlers on id 71: returns / raises (asked for details) / strict signature *)
+  [w_sub BReturn None; w_sub (BRaise 7) (w_opts (Some true) None); OpSubscribe w_strict_sp None 1 [];
+   OpSubscribed 1 71; OpSubscribed 2 71; OpSubscribed 3 71].
+(* every way of (not) asking for details, each handler accepting only the keyword "a" and whatever it asked for:
+   no options / SubscribeOptions() / details=False / details=True / details_arg="info" *)
+Definition w_strict_with (ks : list key) : hspec := {| hs_sig := SigOnly ks; hs_check := false; hs_ann := None; hs_beh := BReturn |}.
+Definition w_details_ops : list op :=
+  [OpSubscribe (w_strict_with [0]) None 1 []; OpSubscribe (w_strict_with [0]) (w_opts None None) 1 [];
+   OpSubscribe (w_strict_with [0]) (w_opts (Some false) None) 1 []; OpSubscribe (w_strict_with [0; 3]) (w_opts (Some true) None) 1 [];
+   OpSubscribe (w_strict_with [0; 4]) (w_opts None (Some 4)) 1 [];
+   OpSubscribed 1 71; OpSubscribed 2 71; OpSubscribed 3 71; OpSubscribed 4 71; OpSubscribed 5 71].
+
 (* for the examples: an output seen as (label, args, kwargs, did the function body run) *)
 Definition observable_invocation (o : out) : option (N * list Z * kwargs * bool) :=
   match o with OInvoke l _ a kw ran => Some (l, a, kw, ran) | _ => None end.
+Definition ran_labels (os : list out) : list N :=
+  fold_right (fun o acc => match o with OInvoke l _ _ _ true => l :: acc | _ => acc end) [] os.
